@@ -35,7 +35,7 @@ use crate::zoo;
 
 pub fn run(ctx: &mut Ctx) {
     // (family, repetitions with fresh random material in the thorough tier)
-    let fams: [(&str, fn(&mut Ctx), u64); 10] = [
+    let fams: [(&str, fn(&mut Ctx), u64); 17] = [
         ("s2k", fam_s2k, 1),
         ("cfb_raw", fam_cfb_raw, 3),
         ("seipd1_msg", fam_seipd1_msg, 4),
@@ -46,6 +46,14 @@ pub fn run(ctx: &mut Ctx) {
         ("kw_kdf", fam_kw_kdf, 4),
         ("ecdh_params", fam_ecdh_params, 6),
         ("pkesk_e2e", fam_pkesk_e2e, 3),
+        // the accepting side: reference-made near misses (section 8)
+        ("accept_s2k", fam_accept_s2k, 1),
+        ("accept_skesk", fam_accept_skesk, 2),
+        ("accept_kw", fam_accept_kw, 2),
+        ("accept_ecdh", fam_accept_ecdh, 2),
+        ("accept_x", fam_accept_x, 2),
+        ("accept_seipd2", fam_accept_seipd2, 1),
+        ("accept_keyprot", fam_accept_keyprot, 2),
     ];
     let seed0 = ctx.seed;
     for (name, f, reps) in fams {
@@ -2315,6 +2323,1864 @@ fn fam_pkesk_e2e(ctx: &mut Ctx) {
                         ctx.sample(json!({"family": "pkesk-v6", "key": spec.name(), "sym": s, "aead": a, "reference_message": hexs(&bytes)}));
                     }
                 }
+            }
+        }
+    }
+}
+
+// =============================================================================================
+// (8) THE ACCEPTING SIDE — reference-made near misses.
+//
+// For every construction checked above in the emit / round-trip direction, a sender that holds the
+// right keys builds a stream that deviates from RFC 9580 in exactly ONE element of the construction
+// (one padding octet, the key wrap IV, one octet of the HKDF info, the associated data of the final
+// tag, the memory exponent of an Argon2 specifier, ...). The independent reference refuses each of
+// them (checked first; a deviation that coincides with a valid stream is judged by what the
+// reference reads out of it). The library must refuse them too: "the byte streams the library
+// accepts are exactly those obtained by composing the primitives as the RFC specifies".
+// =============================================================================================
+
+/// Outcome of handing a near miss to the library. `accepted` describes what came back on success.
+fn must_refuse(ctx: &mut Ctx, set: &str, item: &str, accepted: Option<String>, sig: String, detail: String, replay: &Value) {
+    ctx.seen(set, item);
+    ctx.tally(&format!("{set}.executions"), 1);
+    if let Some(got) = accepted {
+        ctx.violation(sig, format!("{detail}; the library returned {got}"), replay.clone());
+    }
+}
+
+fn ceil_log2(p: u8) -> u8 {
+    let mut e = 0u8;
+    while (1u32 << e) < p as u32 {
+        e += 1;
+    }
+    e
+}
+
+/// RFC 9580 3.7.1.4: t >= 1, p >= 1, encoded memory 3+ceil(log2 p) ..= 31
+fn argon2_legal(t: u8, p: u8, m: u8) -> bool {
+    t >= 1 && p >= 1 && m >= 3 + ceil_log2(p) && m <= 31
+}
+
+fn argon2_class(t: u8, p: u8, m: u8) -> &'static str {
+    if p == 0 {
+        "p-zero"
+    } else if t == 0 {
+        "t-zero"
+    } else if m > 31 {
+        "m-above-31"
+    } else if m < 3 + ceil_log2(p) {
+        "m-below-minimum"
+    } else {
+        "legal"
+    }
+}
+
+/// What a sender that ignores the RFC's parameter range would plausibly compute: every parameter
+/// Argon2 itself cannot work with is raised to the smallest value Argon2 accepts.
+fn argon2_sloppy(salt: &[u8; 16], t: u8, p: u8, m: u8, pw: &[u8], ks: usize) -> Option<Vec<u8>> {
+    let p2 = p.max(1) as u32;
+    let t2 = t.max(1) as u32;
+    let mem = if m > 31 { 8 * p2 } else { (1u32 << m).max(8 * p2) };
+    if mem > 1 << 12 {
+        return None; // keep it cheap
+    }
+    let params = argon2::Params::new(mem, t2, p2, Some(ks)).ok()?;
+    let a = argon2::Argon2::new(argon2::Algorithm::Argon2id, argon2::Version::V0x13, params);
+    let mut out = vec![0u8; ks];
+    a.hash_password_into(pw, salt, &mut out).ok()?;
+    Some(out)
+}
+
+/// Argon2 parameter triples outside the RFC's range (all of them), cheap to refuse.
+fn argon2_illegal_grid() -> Vec<(u8, u8, u8)> {
+    let mut v = vec![];
+    for p in [1u8, 2, 3, 4, 5, 7, 8, 9, 15, 16, 17, 31, 32] {
+        for m in 0..3 + ceil_log2(p) {
+            v.push((1 + (p + m) % 3, p, m));
+        }
+    }
+    for t in [1u8, 3] {
+        for m in [0u8, 3, 8] {
+            v.push((t, 0, m));
+        }
+    }
+    for p in [1u8, 4] {
+        for m in [3 + ceil_log2(p), 6] {
+            v.push((0, p, m));
+        }
+    }
+    v.push((0, 0, 0));
+    for m in [32u8, 33, 64, 255] {
+        v.push((1, 1, m));
+    }
+    v
+}
+
+fn lib_skesk_parse(body: &[u8]) -> pgp::errors::Result<pgp::packet::SymKeyEncryptedSessionKey> {
+    pgp::packet::SymKeyEncryptedSessionKey::try_from_reader(PacketHeader::new_fixed(Tag::SymKeyEncryptedSessionKey, body.len() as u32), body)
+}
+
+fn lib_skesk_open(body: &[u8], pw: &[u8]) -> Result<PlainSessionKey, String> {
+    let p = lib_skesk_parse(body).map_err(|e| format!("parse: {e}"))?;
+    pgp::composed::decrypt_session_key_with_password(&p, &Password::from(pw)).map_err(|e| format!("decrypt: {e}"))
+}
+
+fn sk_desc(k: &PlainSessionKey) -> String {
+    match k {
+        PlainSessionKey::V3_4 { sym_alg, key } => format!("session key (v3/4) alg {} key {}", u8::from(*sym_alg), hexs(key.as_ref())),
+        PlainSessionKey::V6 { key } => format!("session key (v6) {}", hexs(key.as_ref())),
+        other => format!("{other:?}"),
+    }
+}
+
+/// SKESK v4 body from a given key-encryption key
+fn skesk_v4_with_key(sym_: u8, s2k: &[u8], kek: &[u8], session: Option<&[u8]>) -> Option<Vec<u8>> {
+    let mut o = vec![4u8, sym_];
+    o.extend_from_slice(s2k);
+    if let Some(pt) = session {
+        let mut pt = pt.to_vec();
+        rfc::sym::cfb_encrypt(sym_, kek, &vec![0u8; rfc::sym::block_size(sym_)?], &mut pt)?;
+        o.extend(pt);
+    }
+    Some(o)
+}
+
+/// SKESK v6 body (RFC 9580 5.3.2) from given S2K output `ikm`, with one element of the construction
+/// changed according to `dev` ("" = the RFC's construction).
+fn skesk_v6_dev(s: u8, a: u8, s2k: &[u8], ikm: &[u8], iv: &[u8], sk: &[u8], dev: &str) -> Option<Vec<u8>> {
+    let ks = rfc::sym::key_size(s)?;
+    let info = [0xC3u8, 6, s, a];
+    let hinfo: Vec<u8> = match dev {
+        "hkdf-info-empty" => vec![],
+        "hkdf-info-version-5" => vec![0xC3, 5, s, a],
+        "hkdf-info-without-aead-octet" => vec![0xC3, 6, s],
+        "hkdf-info-plain-tag-octet" => vec![3, 6, s, a],
+        "hkdf-info-of-seipd" => vec![0xD2, 2, s, a],
+        _ => info.to_vec(),
+    };
+    let kek = match dev {
+        "kek-is-s2k-output" => ikm[..ks].to_vec(),
+        "hkdf-sha512" => {
+            let hk = hkdf::Hkdf::<sha2::Sha512>::new(None, ikm);
+            let mut o = vec![0u8; ks];
+            hk.expand(&hinfo, &mut o).ok()?;
+            o
+        }
+        "hkdf-salt-is-s2k-specifier" => rfc::sym::hkdf_sha256(Some(s2k), ikm, &hinfo, ks),
+        "hkdf-salt-32-zero-octets-and-info-empty" => rfc::sym::hkdf_sha256(Some(&[0u8; 32]), ikm, &[], ks),
+        _ => rfc::sym::hkdf_sha256(None, ikm, &hinfo, ks),
+    };
+    let ad: Vec<u8> = match dev {
+        "ad-empty" => vec![],
+        "ad-without-version" => vec![0xC3, s, a],
+        "ad-version-5" => vec![0xC3, 5, s, a],
+        "ad-plain-tag-octet" => vec![3, 6, s, a],
+        "ad-with-octet-count" => [&info[..], &(sk.len() as u64).to_be_bytes()].concat(),
+        "ad-with-s2k-specifier" => [&info[..], s2k].concat(),
+        "ad-cipher-and-aead-swapped" => vec![0xC3, 6, a, s],
+        _ => info.to_vec(),
+    };
+    let mut ct = rfc::sym::aead_seal(s, a, &kek, iv, &ad, sk)?;
+    match dev {
+        "tag-truncated-by-one-octet" => {
+            ct.pop();
+        }
+        "tag-missing" => ct.truncate(sk.len()),
+        "tag-first-octet-flipped" => ct[sk.len()] ^= 0x01,
+        "tag-last-octet-flipped" => *ct.last_mut()? ^= 0x80,
+        _ => {}
+    }
+    let mut o = vec![6u8, (3 + s2k.len() + iv.len()) as u8, s, a, s2k.len() as u8];
+    o.extend_from_slice(s2k);
+    o.extend_from_slice(iv);
+    o.extend(ct);
+    Some(o)
+}
+
+const SKESK6_DEVS: [&str; 22] = [
+    "hkdf-info-empty",
+    "hkdf-info-version-5",
+    "hkdf-info-without-aead-octet",
+    "hkdf-info-plain-tag-octet",
+    "hkdf-info-of-seipd",
+    "kek-is-s2k-output",
+    "hkdf-sha512",
+    "hkdf-salt-is-s2k-specifier",
+    "hkdf-salt-32-zero-octets-and-info-empty",
+    "ad-empty",
+    "ad-without-version",
+    "ad-version-5",
+    "ad-plain-tag-octet",
+    "ad-with-octet-count",
+    "ad-with-s2k-specifier",
+    "ad-cipher-and-aead-swapped",
+    "tag-truncated-by-one-octet",
+    "tag-missing",
+    "tag-first-octet-flipped",
+    "tag-last-octet-flipped",
+    "session-key-under-other-password",
+    "iv-last-octet-flipped",
+];
+
+// ---------------------------------------------------------------------------------------------
+// (8.1) S2K parameter sets outside the RFC's range: derive_key, SKESK v4/v6 decryption and
+// encryption; unknown hash ids and specifier types
+
+fn fam_accept_s2k(ctx: &mut Ctx) {
+    let grid = argon2_illegal_grid();
+    // ---- derive_key on every illegal triple, and the legal boundary next to it against the reference
+    for (gi, group) in grid.chunks(8).enumerate() {
+        if !ctx.mine() {
+            continue;
+        }
+        describe_case(&format!("s2k argon2 outside the range, group {gi}"));
+        for (k, &(t, p, m)) in group.iter().enumerate() {
+            let mut rng = ctx.rng("accept.s2k.argon", (gi * 8 + k) as u64);
+            let salt: [u8; 16] = rng.gen();
+            let cls = argon2_class(t, p, m);
+            for ks in [16usize, 32] {
+                let pw = { let n = [0usize, 8, 30][rng.gen_range(0..3)]; rbytes(&mut rng, n) };
+                let r = RefS2k::Argon2 { salt, t, p, m };
+                let rp = json!({"family": "s2k-outside-range", "s2k": hexs(&r.encode()), "pw": hexs(&pw), "key_size": ks});
+                // (the reference's Argon2 arm computes 1 << m: keep it away from m >= 32)
+                if argon2_legal(t, p, m) || (m <= 31 && r.derive(&pw, ks).is_some()) {
+                    ctx.inconclusive("argon2 triple meant to be illegal is derivable by the reference");
+                    continue;
+                }
+                cov(ctx, "s2k-range", 0, 0, 0, 4, 0, cls, &format!("t{t}p{p}m{m}ks{ks}"), "refuse");
+                let l = lib_s2k(&r);
+                let got = lib(ctx, "C12/s2k", &rp, || l.derive_key(&pw, ks).map(|k| k.as_ref().to_vec()));
+                let Some(got) = got else { continue };
+                must_refuse(
+                    ctx,
+                    "near-miss.s2k",
+                    &format!("argon2-{cls}"),
+                    got.ok().map(|k| format!("the key {}", hexs(&k))),
+                    format!("C12/s2k/derives-outside-rfc-range/argon2-{cls}"),
+                    format!("StringToKey::derive_key produced a key for an Argon2 specifier RFC 9580 3.7.1.4 does not define (t={t}, p={p}, encoded m={m}; required t>=1, p>=1, 3+ceil(log2 p) <= m <= 31)"),
+                    &rp,
+                );
+            }
+        }
+    }
+    // the legal boundary m = 3+ceil(log2 p) for every p the illegal grid uses (library must agree with Argon2)
+    for (pi, p) in [1u8, 2, 3, 4, 5, 7, 8, 9, 15, 16, 17, 31, 32].into_iter().enumerate() {
+        if !ctx.mine() {
+            continue;
+        }
+        describe_case(&format!("s2k argon2 smallest legal memory p {p}"));
+        let mut rng = ctx.rng("accept.s2k.boundary", pi as u64);
+        let m = 3 + ceil_log2(p);
+        let r = RefS2k::Argon2 { salt: rng.gen(), t: 1, p, m };
+        let pw = rbytes(&mut rng, 9);
+        s2k_check(ctx, &r, &pw, [16usize, 24, 32][pi % 3], &format!("t1p{p}m{m}-min"));
+        ctx.seen("s2k.argon2.legal-boundary", format!("p{p}m{m}"));
+    }
+    // ---- unknown hash ids in salted / iterated specifiers, unknown specifier types
+    if ctx.mine() {
+        describe_case("s2k unknown hash / type");
+        let mut rng = ctx.rng("accept.s2k.unknown", 0);
+        for h in [0u8, 4, 5, 6, 7, 13, 15, 16, 100, 110, 255] {
+            for kind in ["salted", "iterated"] {
+                let salt: [u8; 8] = rng.gen();
+                let l = if kind == "salted" {
+                    StringToKey::Salted { hash_alg: HashAlgorithm::from(h), salt }
+                } else {
+                    StringToKey::IteratedAndSalted { hash_alg: HashAlgorithm::from(h), salt, count: 0 }
+                };
+                let rp = json!({"family": "s2k-unknown-hash", "hash": h, "kind": kind});
+                let got = lib(ctx, "C12/s2k", &rp, || l.derive_key(b"pw", 16).map(|k| k.as_ref().to_vec()));
+                let Some(got) = got else { continue };
+                must_refuse(
+                    ctx,
+                    "near-miss.s2k",
+                    &format!("unknown-hash-{kind}"),
+                    got.ok().map(|k| format!("the key {}", hexs(&k))),
+                    format!("C12/s2k/unknown-hash-derives/{kind}"),
+                    format!("derive_key with undefined hash id {h} in a {kind} specifier"),
+                    &rp,
+                );
+            }
+        }
+        for typ in (2u8..=2).chain(5..=255) {
+            let mut b = vec![typ, 8];
+            b.extend(rbytes(&mut rng, 24));
+            let rp = json!({"family": "s2k-unknown-type", "specifier": hexs(&b)});
+            let got = lib(ctx, "C12/s2k", &rp, || StringToKey::try_from_reader(&b[..]).ok().and_then(|s| s.derive_key(b"pw", 16).ok().map(|k| k.as_ref().to_vec())));
+            let Some(got) = got else { continue };
+            must_refuse(
+                ctx,
+                "near-miss.s2k",
+                "unknown-type",
+                got.map(|k| format!("the key {}", hexs(&k))),
+                "C12/s2k/unknown-type-derives".to_string(),
+                format!("a specifier of undefined S2K type {typ} was parsed and derive_key produced a key from it"),
+                &rp,
+            );
+        }
+    }
+    // ---- SKESK v4 / v6 whose Argon2 specifier is outside the range: made by a sender that raises the
+    // parameters to what Argon2 can work with; the library must neither open nor emit such packets
+    let payload = b"C12 s2k range payload".to_vec();
+    let sub: Vec<(u8, u8, u8)> = grid.iter().copied().filter(|&(_, p, _)| p <= 16).collect();
+    for (gi, group) in sub.chunks(6).enumerate() {
+        if !ctx.mine() {
+            continue;
+        }
+        describe_case(&format!("skesk with argon2 outside the range, group {gi}"));
+        for (k, &(t, p, m)) in group.iter().enumerate() {
+            let idx = (gi * 6 + k) as u64;
+            let mut rng = ctx.rng("accept.s2k.skesk", idx);
+            let salt: [u8; 16] = rng.gen();
+            let cls = argon2_class(t, p, m);
+            let r = RefS2k::Argon2 { salt, t, p, m };
+            let s2kb = r.encode();
+            let pw = { let n = rng.gen_range(1..20); rbytes(&mut rng, n) };
+            let s = AES[(idx % 3) as usize];
+            let a = AEADS[((idx / 3) % 3) as usize];
+            let ks = rfc::sym::key_size(s).unwrap();
+            let Some(kek) = argon2_sloppy(&salt, t, p, m, &pw, ks) else {
+                ctx.inconclusive("no sloppy Argon2 derivation for this triple");
+                continue;
+            };
+            let sk = rbytes(&mut rng, ks);
+            let iv = rbytes(&mut rng, rfc::sym::aead_nonce_len(a).unwrap());
+            // v4 with an encrypted session key, v4 without, v6
+            let mut esk = vec![s];
+            esk.extend(&sk);
+            let b4 = skesk_v4_with_key(s, &s2kb, &kek, Some(&esk)).expect("skesk4");
+            let b4n = skesk_v4_with_key(s, &s2kb, &kek, None).expect("skesk4");
+            let b6 = skesk_v6_dev(s, a, &s2kb, &kek, &iv, &sk, "").expect("skesk6");
+            let prefix = rbytes(&mut rng, 16);
+            let mut m18v1 = vec![1u8];
+            m18v1.extend(rfc::sym::seipd_v1_encrypt(s, &sk, &prefix, &ref_literal(&payload)).expect("ref seipd1"));
+            let mut m18v1n = vec![1u8];
+            m18v1n.extend(rfc::sym::seipd_v1_encrypt(s, &kek, &prefix, &ref_literal(&payload)).expect("ref seipd1"));
+            let salt32: [u8; 32] = rng.gen();
+            let m18v2 = rfc::sym::seipd_v2_encrypt(s, a, 0, &salt32, &sk, &ref_literal(&payload)).expect("ref seipd2");
+            for (ver, body3, body18) in [("skesk4", &b4, &m18v1), ("skesk4-no-esk", &b4n, &m18v1n), ("skesk6", &b6, &m18v2)] {
+                let rp = json!({"family": "skesk-s2k-outside-range", "version": ver, "s2k": hexs(&s2kb), "pw": hexs(&pw), "skesk_body": hexs(body3)});
+                cov(ctx, "skesk-s2k-range", s, if ver == "skesk6" { a } else { 0 }, 0, 4, 0, cls, ver, "refuse");
+                // packet level
+                if let Some(r) = lib(ctx, "C12/skesk/s2k-range", &rp, || lib_skesk_open(body3, &pw)) {
+                    must_refuse(
+                        ctx,
+                        "near-miss.skesk-s2k-range",
+                        &format!("{ver}/argon2-{cls}"),
+                        r.ok().map(|k| sk_desc(&k)),
+                        format!("C12/{}/accepts-s2k-outside-rfc-range/argon2-{cls}", &ver[..6]),
+                        format!("a {ver} packet whose Argon2 specifier is outside RFC 9580 3.7.1.4 (t={t}, p={p}, encoded m={m}) was opened with the password"),
+                        &rp,
+                    );
+                }
+                // message level
+                let mut bytes = frame(3, body3, &LenForm::NewMin).unwrap();
+                bytes.extend(frame(18, body18, &LenForm::NewMin).unwrap());
+                if let Some(r) = lib(ctx, "C12/skesk/s2k-range", &rp, || {
+                    let pwd = Password::from(&pw[..]);
+                    lib_read_msg(&bytes, TheRing { message_password: vec![&pwd], ..Default::default() })
+                }) {
+                    must_refuse(
+                        ctx,
+                        "near-miss.skesk-s2k-range",
+                        &format!("{ver}-message/argon2-{cls}"),
+                        r.ok().map(|d| format!("{} octets of plaintext", d.len())),
+                        format!("C12/{}/accepts-s2k-outside-rfc-range/argon2-{cls}", &ver[..6]),
+                        format!("a password-encrypted message whose {ver} packet has an Argon2 specifier outside RFC 9580 3.7.1.4 (t={t}, p={p}, encoded m={m}) was decrypted"),
+                        &rp,
+                    );
+                }
+            }
+            // emitting side: the library must not write a packet nobody can open under the RFC
+            let rp = json!({"family": "skesk-emit-s2k-outside-range", "s2k": hexs(&s2kb), "pw": hexs(&pw)});
+            let pwd = Password::from(&pw[..]);
+            let rsk = RawSessionKey::from(sk.clone());
+            if let Some(r) = lib(ctx, "C12/skesk/s2k-range", &rp, || {
+                pgp::packet::SymKeyEncryptedSessionKey::encrypt_v4(&pwd, &rsk, lib_s2k(&r), sym(s)).and_then(|p| p.to_bytes())
+            }) {
+                must_refuse(
+                    ctx,
+                    "near-miss.skesk-s2k-range",
+                    &format!("skesk4-emit/argon2-{cls}"),
+                    r.ok().map(|b| format!("the packet body {}", hexs(&b))),
+                    format!("C12/skesk4/emits-s2k-outside-rfc-range/argon2-{cls}"),
+                    format!("encrypt_v4 wrote a packet with an Argon2 specifier outside RFC 9580 3.7.1.4 (t={t}, p={p}, encoded m={m}): no key is defined for it"),
+                    &rp,
+                );
+            }
+            if let Some(r) = lib(ctx, "C12/skesk/s2k-range", &rp, || {
+                pgp::packet::SymKeyEncryptedSessionKey::encrypt_v6(rng.clone(), &pwd, &rsk, lib_s2k(&r), sym(s), aead(a)).and_then(|p| p.to_bytes())
+            }) {
+                must_refuse(
+                    ctx,
+                    "near-miss.skesk-s2k-range",
+                    &format!("skesk6-emit/argon2-{cls}"),
+                    r.ok().map(|b| format!("the packet body {}", hexs(&b))),
+                    format!("C12/skesk6/emits-s2k-outside-rfc-range/argon2-{cls}"),
+                    format!("encrypt_v6 wrote a packet with an Argon2 specifier outside RFC 9580 3.7.1.4 (t={t}, p={p}, encoded m={m}): no key is defined for it"),
+                    &rp,
+                );
+            }
+        }
+    }
+}
+
+// ---------------------------------------------------------------------------------------------
+// (8.2) SKESK v6 with one element of the construction wrong; SKESK v4 whose decrypted session key
+// framing is not "algorithm octet || key of that algorithm's size"
+
+fn fam_accept_skesk(ctx: &mut Ctx) {
+    let payload = b"C12 skesk near miss payload".to_vec();
+    for &s in &AES {
+        for &a in &AEADS {
+            if !ctx.mine() {
+                continue;
+            }
+            describe_case(&format!("skesk v6 near misses sym {s} aead {a}"));
+            let ks = rfc::sym::key_size(s).unwrap();
+            let ns = rfc::sym::aead_nonce_len(a).unwrap();
+            for (di, dev) in SKESK6_DEVS.iter().enumerate() {
+                let mut rng = ctx.rng("accept.skesk6", ((s as u64) << 24) | ((a as u64) << 16) | di as u64);
+                let h = STRONG_HASHES[rng.gen_range(0..STRONG_HASHES.len())];
+                let r = mk_s2k(&mut rng, [1usize, 1, 2, 0][di % 4], h);
+                let (k, hh, _) = s2k_kind(&r);
+                let pw = { let n = rng.gen_range(1..30); rbytes(&mut rng, n) };
+                let Some(mut ikm) = r.derive(&pw, ks) else {
+                    ctx.inconclusive("reference cannot derive");
+                    continue;
+                };
+                if *dev == "session-key-under-other-password" {
+                    let mut pw2 = pw.clone();
+                    *pw2.last_mut().unwrap() ^= 1;
+                    ikm = r.derive(&pw2, ks).expect("derive");
+                }
+                let sk = rbytes(&mut rng, ks);
+                let iv = rbytes(&mut rng, ns);
+                let Some(mut body3) = skesk_v6_dev(s, a, &r.encode(), &ikm, &iv, &sk, dev) else {
+                    ctx.inconclusive("reference cannot build this SKESK v6 near miss");
+                    continue;
+                };
+                if *dev == "iv-last-octet-flipped" {
+                    let p = 5 + r.encode().len() + ns - 1;
+                    body3[p] ^= 0x10;
+                }
+                // the control: the same builder without deviation is the reference's own packet
+                if di == 0 && skesk_v6_dev(s, a, &r.encode(), &ikm, &iv, &sk, "") != rfc::sym::skesk_v6_encode(s, a, &r, &pw, &iv, &sk) {
+                    ctx.inconclusive("near-miss builder does not reproduce the reference SKESK v6");
+                    continue;
+                }
+                if !matches!(rfc::sym::skesk_v6_decrypt(&body3, &pw), None | Some(Err(()))) {
+                    ctx.tally("near-miss.skesk6.coincides-with-valid", 1);
+                    continue;
+                }
+                let rp = json!({"family": "skesk6-near-miss", "deviation": dev, "sym": s, "aead": a, "s2k": hexs(&r.encode()), "pw": hexs(&pw), "skesk_body": hexs(&body3)});
+                cov(ctx, "skesk6-near", s, a, 0, k, hh, dev, "-", "refuse");
+                if let Some(res) = lib(ctx, "C12/skesk6/near-miss", &rp, || lib_skesk_open(&body3, &pw)) {
+                    must_refuse(
+                        ctx,
+                        "near-miss.skesk6",
+                        dev,
+                        res.ok().map(|k| sk_desc(&k)),
+                        format!("C12/skesk6/accepts-non-rfc-packet/{dev}"),
+                        format!("an SKESK v6 packet that deviates from RFC 9580 5.3.2 in one element ({dev}; sym {s}, aead {a}) was opened with the password"),
+                        &rp,
+                    );
+                }
+                let salt: [u8; 32] = rng.gen();
+                let body18 = rfc::sym::seipd_v2_encrypt(s, a, 0, &salt, &sk, &ref_literal(&payload)).expect("ref seipd2");
+                let mut bytes = frame(3, &body3, &LenForm::NewMin).unwrap();
+                bytes.extend(frame(18, &body18, &LenForm::NewMin).unwrap());
+                if let Some(res) = lib(ctx, "C12/skesk6/near-miss", &rp, || {
+                    let pwd = Password::from(&pw[..]);
+                    lib_read_msg(&bytes, TheRing { message_password: vec![&pwd], ..Default::default() })
+                }) {
+                    must_refuse(
+                        ctx,
+                        "near-miss.skesk6-message",
+                        dev,
+                        res.ok().map(|d| format!("{} octets of plaintext", d.len())),
+                        format!("C12/skesk6/accepts-non-rfc-packet/{dev}"),
+                        format!("a message whose SKESK v6 packet deviates from RFC 9580 5.3.2 in one element ({dev}; sym {s}, aead {a}) was decrypted with the password"),
+                        &rp,
+                    );
+                }
+            }
+        }
+    }
+    // ---- v4: CFB has no integrity; what can and must be refused is a decrypted framing that is not
+    // "algorithm octet || key of exactly that algorithm's size"
+    for &alg in rfc::sym::ALL_CIPHERS.iter() {
+        if !ctx.mine() {
+            continue;
+        }
+        describe_case(&format!("skesk v4 framing near misses alg {alg}"));
+        let ks = rfc::sym::key_size(alg).unwrap();
+        for (di, dev) in ["algorithm-octet-00", "algorithm-octet-unknown", "algorithm-octet-other-key-size", "key-one-octet-short", "key-one-octet-long", "key-missing"].iter().enumerate() {
+            let mut rng = ctx.rng("accept.skesk4", ((alg as u64) << 8) | di as u64);
+            let h = STRONG_HASHES[rng.gen_range(0..STRONG_HASHES.len())];
+            let r = mk_s2k(&mut rng, di % 2, h);
+            let pw = { let n = rng.gen_range(1..30); rbytes(&mut rng, n) };
+            let malg = rfc::sym::ALL_CIPHERS[rng.gen_range(0..11)];
+            let mks = rfc::sym::key_size(malg).unwrap();
+            let (oct, klen) = match *dev {
+                "algorithm-octet-00" => (0u8, mks),
+                "algorithm-octet-unknown" => ([5u8, 6, 14, 99, 110, 255][rng.gen_range(0..6)], mks),
+                "algorithm-octet-other-key-size" => (*rfc::sym::ALL_CIPHERS.iter().find(|c| rfc::sym::key_size(**c) != Some(mks)).unwrap(), mks),
+                "key-one-octet-short" => (malg, mks - 1),
+                "key-one-octet-long" => (malg, mks + 1),
+                _ => (malg, 0),
+            };
+            let mut pt = vec![oct];
+            pt.extend(rbytes(&mut rng, klen));
+            let kek = r.derive(&pw, ks).expect("derive");
+            let body3 = skesk_v4_with_key(alg, &r.encode(), &kek, Some(&pt)).expect("skesk4");
+            // reference reading: algorithm known and key of its size
+            if rfc::sym::key_size(oct) == Some(klen) && oct != 0 {
+                ctx.inconclusive("skesk v4 framing near miss is a valid framing");
+                continue;
+            }
+            let rp = json!({"family": "skesk4-near-miss", "deviation": dev, "alg": alg, "s2k": hexs(&r.encode()), "pw": hexs(&pw), "skesk_body": hexs(&body3)});
+            cov(ctx, "skesk4-near", alg, 0, 0, s2k_kind(&r).0, s2k_kind(&r).1, dev, "-", "refuse");
+            if let Some(res) = lib(ctx, "C12/skesk4/near-miss", &rp, || lib_skesk_open(&body3, &pw)) {
+                must_refuse(
+                    ctx,
+                    "near-miss.skesk4",
+                    dev,
+                    res.ok().map(|k| sk_desc(&k)),
+                    format!("C12/skesk4/accepts-non-rfc-packet/{dev}"),
+                    format!("an SKESK v4 packet whose encrypted session key is not 'algorithm octet || key of that size' ({dev}: octet {oct}, {klen} key octets) was opened"),
+                    &rp,
+                );
+            }
+        }
+    }
+}
+
+// ---------------------------------------------------------------------------------------------
+// (8.3) AES key wrap (RFC 3394) with another initial value, a modified or re-sized wrapping
+
+/// RFC 3394 2.2.1 with a caller-chosen initial value (the RFC's is A6A6A6A6A6A6A6A6)
+fn kw_wrap_iv(kek: &[u8], data: &[u8], iv: [u8; 8]) -> Option<Vec<u8>> {
+    if data.len() % 8 != 0 || data.len() < 16 {
+        return None;
+    }
+    let alg = match kek.len() {
+        16 => 7,
+        24 => 8,
+        32 => 9,
+        _ => return None,
+    };
+    let enc = rfc::sym::block_encryptor(alg, kek)?;
+    let n = data.len() / 8;
+    let mut a = iv;
+    let mut r: Vec<[u8; 8]> = data.chunks(8).map(|c| c.try_into().unwrap()).collect();
+    for j in 0..6 {
+        for (i, ri) in r.iter_mut().enumerate() {
+            let mut b = [0u8; 16];
+            b[..8].copy_from_slice(&a);
+            b[8..].copy_from_slice(ri);
+            enc(&mut b);
+            a.copy_from_slice(&b[..8]);
+            for (k, tb) in ((n * j + i + 1) as u64).to_be_bytes().iter().enumerate() {
+                a[k] ^= tb;
+            }
+            ri.copy_from_slice(&b[8..]);
+        }
+    }
+    let mut out = a.to_vec();
+    for x in r {
+        out.extend(x);
+    }
+    Some(out)
+}
+
+/// initial values that are not RFC 3394's
+fn kw_wrong_ivs(data_len: usize) -> Vec<(&'static str, [u8; 8])> {
+    let mut alt = [0xA6, 0x59, 0x59, 0xA6, 0, 0, 0, 0];
+    alt[4..].copy_from_slice(&(data_len as u32).to_be_bytes());
+    vec![
+        ("kw-iv-zero", [0; 8]),
+        ("kw-iv-first-octet-a5", [0xA5, 0xA6, 0xA6, 0xA6, 0xA6, 0xA6, 0xA6, 0xA6]),
+        ("kw-iv-last-octet-a7", [0xA6, 0xA6, 0xA6, 0xA6, 0xA6, 0xA6, 0xA6, 0xA7]),
+        ("kw-iv-complement", [0x59; 8]),
+        ("kw-iv-rfc5649", alt),
+    ]
+}
+
+fn fam_accept_kw(ctx: &mut Ctx) {
+    for ks in [16usize, 24, 32] {
+        if !ctx.mine() {
+            continue;
+        }
+        describe_case(&format!("aes key wrap near misses kek {ks}"));
+        for n in [16usize, 24, 32, 40, 48, 64] {
+            let mut rng = ctx.rng("accept.aeskw", (ks * 1000 + n) as u64);
+            let kek = rbytes(&mut rng, ks);
+            let data = rbytes(&mut rng, n);
+            let good = rfc::sym::aes_kw_wrap(&kek, &data).expect("ref wrap");
+            if kw_wrap_iv(&kek, &data, [0xA6; 8]).as_ref() != Some(&good) {
+                ctx.inconclusive("key wrap with explicit IV does not reproduce the reference wrap");
+                continue;
+            }
+            let mut cases: Vec<(String, Vec<u8>)> = vec![];
+            for (name, iv) in kw_wrong_ivs(n) {
+                cases.push((name.to_string(), kw_wrap_iv(&kek, &data, iv).expect("wrap")));
+            }
+            for pos in 0..good.len() {
+                let mut b = good.clone();
+                b[pos] ^= 1 << rng.gen_range(0..8);
+                let cls = if pos < 8 { "wrapping-octet-flipped-in-first-block" } else if pos >= good.len() - 8 { "wrapping-octet-flipped-in-last-block" } else { "wrapping-octet-flipped-inside" };
+                cases.push((cls.to_string(), b));
+            }
+            cases.push(("wrapping-last-block-dropped".into(), good[..good.len() - 8].to_vec()));
+            cases.push(("wrapping-first-block-dropped".into(), good[8..].to_vec()));
+            cases.push(("wrapping-zero-block-appended".into(), [&good[..], &[0u8; 8]].concat()));
+            cases.push(("wrapping-last-octet-dropped".into(), good[..good.len() - 1].to_vec()));
+            cases.push(("wrapping-blocks-swapped".into(), {
+                let mut b = good.clone();
+                let (x, y) = b.split_at_mut(16);
+                x[8..16].swap_with_slice(&mut y[..8]);
+                b
+            }));
+            // wrapped under the wrong key size of the same key material is a different key: not a near miss
+            for (cls, w) in cases {
+                if rfc::sym::aes_kw_unwrap(&kek, &w).is_some() {
+                    ctx.tally("near-miss.aeskw.coincides-with-valid", 1);
+                    continue;
+                }
+                let rp = json!({"family": "aeskw-near-miss", "deviation": cls, "kek": hexs(&kek), "data": hexs(&data), "wrapped": hexs(&w)});
+                cov(ctx, "aeskw-near", (ks / 8 + 5) as u8, 0, 0, 0, 0, &cls, &n.to_string(), "refuse");
+                if let Some(r) = lib(ctx, "C12/aeskw", &rp, || pgp::crypto::aes_kw::unwrap(&kek, &w).map(|z| z.to_vec())) {
+                    must_refuse(
+                        ctx,
+                        "near-miss.aeskw",
+                        &cls,
+                        r.ok().map(|d| format!("the data {}", hexs(&d))),
+                        format!("C12/aeskw/accepts-non-rfc3394/{cls}"),
+                        format!("aes_kw::unwrap accepted a wrapping that is not the RFC 3394 wrapping of any data under this key ({cls}; kek {} bits, {n} data octets)", ks * 8),
+                        &rp,
+                    );
+                }
+            }
+        }
+    }
+}
+
+// ---------------------------------------------------------------------------------------------
+// (8.4) ECDH (RFC 9580 11.5): the padded plaintext, the session key framing inside it, the key wrap
+// IV and the KDF input, each with one element wrong
+
+/// RFC 9580 11.5 / RFC 8018 padding as a receiver reads it: N octets of value N, N >= 1, something left
+fn ref_unpad_rfc(m: &[u8]) -> Option<Vec<u8>> {
+    let n = *m.last()? as usize;
+    if m.len() % 8 != 0 || n == 0 || n >= m.len() {
+        return None;
+    }
+    if !m[m.len() - n..].iter().all(|b| *b as usize == n) {
+        return None;
+    }
+    Some(m[..m.len() - n].to_vec())
+}
+
+/// RFC 9580 5.1: v3 "algorithm octet || key || sum16(key)" with a key of the algorithm's size; v6 "key || sum16(key)".
+/// Returns (algorithm or 0, key).
+fn ref_open_framing(f: &[u8], v6: bool) -> Option<(u8, Vec<u8>)> {
+    if v6 {
+        if f.len() < 3 {
+            return None;
+        }
+        let (k, c) = f.split_at(f.len() - 2);
+        (rfc::sum16(k).to_be_bytes() == [c[0], c[1]]).then(|| (0, k.to_vec()))
+    } else {
+        let alg = *f.first()?;
+        let ks = rfc::sym::key_size(alg)?;
+        if f.len() != ks + 3 {
+            return None;
+        }
+        let k = &f[1..1 + ks];
+        (rfc::sum16(k).to_be_bytes() == [f[ks + 1], f[ks + 2]]).then(|| (alg, k.to_vec()))
+    }
+}
+
+fn repad(f: &[u8], long: bool) -> Vec<u8> {
+    if long && f.len() < 40 {
+        pad_to(f, 40)
+    } else {
+        rfc::key::pkcs5_pad(f)
+    }
+}
+
+/// (signature class, coverage item, padded plaintext handed to the key wrap)
+fn ecdh_plain_devs(framing: &[u8], v6: bool, long: bool, rng: &mut ChaCha8Rng) -> Vec<(String, String, Vec<u8>)> {
+    let padk = if long { "pad40" } else { "pad8" };
+    let base = repad(framing, long);
+    let len = base.len();
+    let n = *base.last().unwrap() as usize;
+    let start = len - n;
+    let mut v: Vec<(String, String, Vec<u8>)> = vec![];
+    // ---- padding: every single position foreign
+    for i in 0..n.saturating_sub(1) {
+        let mut p = base.clone();
+        p[start + i] ^= rng.gen_range(1..=255u8);
+        v.push(("padding-octet-foreign".into(), format!("{padk}:padding-octet-foreign@{i}of{n}"), p));
+        if i == 0 || i + 2 == n {
+            // the smallest possible difference too
+            let mut p = base.clone();
+            p[start + i] ^= 1;
+            v.push(("padding-octet-foreign".into(), format!("{padk}:padding-octet-off-by-one-bit@{}", if i == 0 { "first" } else { "last-but-one" }), p));
+        }
+    }
+    // ---- the length octet (last octet)
+    for (name, val) in [("zero", 0usize), ("minus-1", n - 1), ("plus-1", n + 1), ("plus-8", n + 8), ("ff", 255)] {
+        if val == n || val > 255 || (name == "minus-1" && val == 0) {
+            continue;
+        }
+        let mut p = base.clone();
+        p[len - 1] = val as u8;
+        v.push((format!("padding-length-octet-{name}"), format!("{padk}:padding-length-octet-{name}"), p));
+    }
+    // ---- all padding octets of another value
+    for (name, val) in [("all-zero", 0usize), ("value-minus-1", n - 1), ("value-plus-1", n + 1), ("value-8", 8)] {
+        if val == n || (name == "value-minus-1" && val == 0) {
+            continue;
+        }
+        let mut p = base.clone();
+        p[start..].fill(val as u8);
+        v.push((format!("padding-{name}"), format!("{padk}:padding-{name}"), p));
+    }
+    // ---- other padding schemes
+    {
+        let mut p = base.clone();
+        for b in &mut p[start..len - 1] {
+            *b = 0;
+        }
+        if n >= 2 {
+            v.push(("padding-ansi-x923".into(), format!("{padk}:padding-ansi-x923"), p));
+        }
+        let mut p = base.clone();
+        let mut differs = false;
+        for b in &mut p[start..len - 1] {
+            let x: u8 = rng.gen();
+            differs |= x as usize != n;
+            *b = x;
+        }
+        if differs {
+            v.push(("padding-iso10126".into(), format!("{padk}:padding-iso10126"), p));
+        }
+        let mut p = framing.to_vec();
+        p.push(0x80);
+        while p.len() % 8 != 0 {
+            p.push(0);
+        }
+        v.push(("padding-iso7816".into(), format!("{padk}:padding-iso7816"), p));
+        let mut p = vec![n as u8; n];
+        p.extend_from_slice(framing);
+        v.push(("padding-in-front".into(), format!("{padk}:padding-in-front"), p));
+    }
+    // ---- wrong count
+    if !long {
+        let mut p = framing.to_vec();
+        p.extend(std::iter::repeat(n as u8).take(n + 8));
+        v.push(("padding-one-block-too-many".into(), format!("{padk}:padding-one-block-too-many"), p));
+    } else if n > 8 {
+        let mut p = framing.to_vec();
+        p.extend(std::iter::repeat(n as u8).take(n - 8));
+        v.push(("padding-one-block-too-few".into(), format!("{padk}:padding-one-block-too-few"), p));
+    }
+    // ---- the framing inside a correct padding
+    let (alg, key, ck) = if v6 {
+        (None, &framing[..framing.len() - 2], u16::from_be_bytes([framing[framing.len() - 2], framing[framing.len() - 1]]))
+    } else {
+        (Some(framing[0]), &framing[1..framing.len() - 2], u16::from_be_bytes([framing[framing.len() - 2], framing[framing.len() - 1]]))
+    };
+    let build = |alg: Option<u8>, key: &[u8], ck: Option<u16>| -> Vec<u8> {
+        let mut f: Vec<u8> = alg.into_iter().collect();
+        f.extend_from_slice(key);
+        if let Some(c) = ck {
+            f.extend(c.to_be_bytes());
+        }
+        repad(&f, long)
+    };
+    let mut fr: Vec<(&str, Vec<u8>)> = vec![
+        ("checksum-plus-1", build(alg, key, Some(ck.wrapping_add(1)))),
+        ("checksum-minus-1", build(alg, key, Some(ck.wrapping_sub(1)))),
+        ("checksum-octets-swapped", build(alg, key, Some(ck.swap_bytes()))),
+        ("checksum-zero", build(alg, key, Some(0))),
+        ("checksum-complement", build(alg, key, Some(!ck))),
+        ("checksum-plus-256", build(alg, key, Some(ck.wrapping_add(256)))),
+        ("checksum-missing", build(alg, key, None)),
+        ("checksum-xor-of-octets", build(alg, key, Some(key.iter().fold(0u8, |a, b| a ^ b) as u16))),
+    ];
+    if let Some(a) = alg {
+        let all: Vec<u8> = [&[a][..], key].concat();
+        fr.push(("checksum-includes-algorithm-octet", build(alg, key, Some(rfc::sum16(&all)))));
+        fr.push(("algorithm-octet-00", build(Some(0), key, Some(ck))));
+        fr.push(("algorithm-octet-unknown", build(Some([5u8, 6, 14, 99, 110, 255][rng.gen_range(0..6)]), key, Some(ck))));
+        let other = *rfc::sym::ALL_CIPHERS.iter().find(|c| rfc::sym::key_size(**c) != Some(key.len())).unwrap();
+        fr.push(("algorithm-octet-other-key-size", build(Some(other), key, Some(ck))));
+        fr.push(("algorithm-octet-missing", build(None, key, Some(ck))));
+        fr.push(("key-one-octet-short", build(alg, &key[..key.len() - 1], Some(rfc::sum16(&key[..key.len() - 1])))));
+        let longer: Vec<u8> = [key, &[0x5A][..]].concat();
+        fr.push(("key-one-octet-long", build(alg, &longer, Some(rfc::sum16(&longer)))));
+    } else {
+        fr.push(("algorithm-octet-present", build(Some(9), key, Some(ck))));
+        fr.push(("checksum-octet-count-instead", build(None, key, Some(key.len() as u16))));
+    }
+    for (name, p) in fr {
+        if p != base {
+            v.push((format!("framing-{name}"), format!("{padk}:framing-{name}"), p));
+        }
+    }
+    // ---- no padding at all (possible only when the framing is a multiple of 8 octets long)
+    if v6 && !long {
+        let mut k2 = vec![0u8; 8 * rng.gen_range(2..=4usize) - 2];
+        rng.fill_bytes(&mut k2);
+        let mut f = k2.clone();
+        f.extend(rfc::sum16(&k2).to_be_bytes());
+        v.push(("padding-absent".into(), format!("{padk}:padding-absent"), f));
+        // ... ending in a zero octet, which a receiver could take for "zero octets of padding"
+        let low = (rfc::sum16(&k2) & 0xFF) as u8;
+        let fix = k2.iter().position(|b| *b >= low).unwrap_or(0);
+        if k2[fix] >= low {
+            k2[fix] -= low;
+            let mut f = k2.clone();
+            f.extend(rfc::sum16(&k2).to_be_bytes());
+            v.push(("padding-absent".into(), format!("{padk}:padding-absent-last-octet-00"), f));
+        }
+    }
+    // one defect class, whatever the way the zero got there: the last octet (the padding length) is zero
+    for c in v.iter_mut() {
+        if c.2.last() == Some(&0) {
+            c.0 = "padding-length-octet-zero".into();
+        }
+    }
+    v
+}
+
+const ECDH_KDF_DEVS: [&str; 16] = [
+    "kdf-counter-2",
+    "kdf-counter-0",
+    "kdf-counter-little-endian",
+    "kdf-without-counter",
+    "kdf-counter-after-shared-secret",
+    "kdf-param-before-shared-secret",
+    "kdf-oid-without-length-octet",
+    "kdf-public-key-algorithm-octet-19",
+    "kdf-params-reserved-octet-00",
+    "kdf-params-without-length-octet",
+    "kdf-without-anonymous-sender",
+    "kdf-anonymous-sender-without-trailing-spaces",
+    "kdf-without-fingerprint",
+    "kdf-fingerprint-of-another-key",
+    "kdf-fingerprint-last-octet-other",
+    "kdf-key-from-digest-tail",
+];
+
+/// RFC 9580 11.5 key-encryption key with one element of the KDF input changed
+fn ecdh_kek_dev(k: &rfc::key::EcdhPub, fp: &[u8], shared: &[u8], dev: &str, other_fp: &[u8]) -> Option<Vec<u8>> {
+    let ks = rfc::sym::key_size(k.kek_alg)?;
+    let mut param = vec![];
+    if dev != "kdf-oid-without-length-octet" {
+        param.push(k.oid.len() as u8);
+    }
+    param.extend(&k.oid);
+    param.push(if dev == "kdf-public-key-algorithm-octet-19" { 19 } else { 18 });
+    match dev {
+        "kdf-params-reserved-octet-00" => param.extend([3, 0, k.kdf_hash, k.kek_alg]),
+        "kdf-params-without-length-octet" => param.extend([1, k.kdf_hash, k.kek_alg]),
+        _ => param.extend([3, 1, k.kdf_hash, k.kek_alg]),
+    }
+    match dev {
+        "kdf-without-anonymous-sender" => {}
+        "kdf-anonymous-sender-without-trailing-spaces" => param.extend(b"Anonymous Sender"),
+        _ => param.extend(b"Anonymous Sender    "),
+    }
+    match dev {
+        "kdf-without-fingerprint" => {}
+        "kdf-fingerprint-of-another-key" => param.extend(other_fp),
+        "kdf-fingerprint-last-octet-other" => {
+            param.extend(fp);
+            *param.last_mut()? ^= 0x01;
+        }
+        _ => param.extend(fp),
+    }
+    let h = match dev {
+        "kdf-counter-2" => rfc::hash(k.kdf_hash, &[&[0, 0, 0, 2], shared, &param])?,
+        "kdf-counter-0" => rfc::hash(k.kdf_hash, &[&[0, 0, 0, 0], shared, &param])?,
+        "kdf-counter-little-endian" => rfc::hash(k.kdf_hash, &[&[1, 0, 0, 0], shared, &param])?,
+        "kdf-without-counter" => rfc::hash(k.kdf_hash, &[shared, &param])?,
+        "kdf-counter-after-shared-secret" => rfc::hash(k.kdf_hash, &[shared, &[0, 0, 0, 1], &param])?,
+        "kdf-param-before-shared-secret" => rfc::hash(k.kdf_hash, &[&[0, 0, 0, 1], &param, shared])?,
+        _ => rfc::hash(k.kdf_hash, &[&[0, 0, 0, 1], shared, &param])?,
+    };
+    if h.len() < ks {
+        return None;
+    }
+    if dev == "kdf-key-from-digest-tail" {
+        if h.len() == ks {
+            return None;
+        }
+        return Some(h[h.len() - ks..].to_vec());
+    }
+    Some(h[..ks].to_vec())
+}
+
+fn fam_accept_ecdh(ctx: &mut Ctx) {
+    // all (KDF hash, KEK cipher) pairs with a strong hash that is long enough
+    let mut pairs: Vec<(u8, u8)> = vec![];
+    for &h in &STRONG_HASHES {
+        for &kek in &AES {
+            if rfc::hash_len(h).unwrap() >= rfc::sym::key_size(kek).unwrap() {
+                pairs.push((h, kek));
+            }
+        }
+    }
+    for (ci, (name, oid)) in CURVES.iter().enumerate() {
+        for v6 in [false, true] {
+            if v6 && *name == "cv25519" {
+                continue;
+            }
+            for pset in 0..2usize {
+                if !ctx.mine() {
+                    continue;
+                }
+                describe_case(&format!("ecdh near misses {name} v6={v6} parameter set {pset}"));
+                let mut rng = ctx.rng("accept.ecdh", ((ci as u64) << 16) | ((v6 as u64) << 8) | pset as u64);
+                let (h, kek) = if pset == 0 {
+                    match *name {
+                        "p384" => (9u8, 8u8),
+                        "p521" => (10, 9),
+                        _ => (8, 7),
+                    }
+                } else {
+                    pairs[rng.gen_range(0..pairs.len())]
+                };
+                let (secret, point) = ecdh_keypair(name, &mut rng);
+                let k = rfc::key::EcdhPub { oid: oid.to_vec(), point, kdf_hash: h, kek_alg: kek };
+                let public = RefPub { version: if v6 { 6 } else { 4 }, created: 1_700_000_000, v3_expiry_days: 0, alg: 18, material: ecdh_material(&k) };
+                let fp = public.fingerprint();
+                let other_fp = rbytes(&mut rng, fp.len());
+                let body = RefSecret::lock(&public, 7, RefProtection::None, b"", &rfc::mpi(&secret)).expect("ref secret").encode();
+                let rp0 = json!({"family": "ecdh-near-miss", "curve": name, "v6": v6, "hash": h, "kek": kek, "secret_subkey_packet": hexs(&body)});
+                let sub = match lib(ctx, "C12/ecdh/key", &rp0, || <pgp::packet::SecretSubkey as SecPkt>::parse(&body)) {
+                    Some(Ok(s)) => s,
+                    Some(Err(e)) => {
+                        ctx.inconclusive(format!("library does not parse the ECDH subkey used for near misses: {e}"));
+                        continue;
+                    }
+                    None => continue,
+                };
+                for esk_v6 in [false, true] {
+                    let typ = if esk_v6 { EskType::V6 } else { EskType::V3_4 };
+                    for (mi, &malg) in AES.iter().enumerate() {
+                        let sk = rbytes(&mut rng, rfc::sym::key_size(malg).unwrap());
+                        let framing = if esk_v6 { rfc::sym::session_key_v6(&sk) } else { rfc::sym::session_key_v3(malg, &sk) };
+                        let seed: [u8; 32] = rng.gen();
+                        let (eph, shared) = rfc::key::ecdh_shared_sender(&k.oid, &k.point, &seed).expect("ref ecdh");
+                        let kekk = rfc::key::ecdh_kek(&k, &fp, &shared).expect("ref kek");
+                        let ctxname = format!("{name}-{}-{}", if v6 { "k6" } else { "k4" }, if esk_v6 { "esk6" } else { "esk3" });
+                        // (deviation class, coverage item, wrapped, what the reference reads from it at the padding layer,
+                        // and at the framing layer)
+                        // plain_layer: the deviation is in the plaintext handed to a correct key wrap
+                        let mut cases: Vec<(String, String, Vec<u8>, bool, Option<Vec<u8>>, Option<(u8, Vec<u8>)>)> = vec![];
+                        for long in [false, true] {
+                            // rotate: every cipher gets both paddings over the two PKESK versions and parameter sets
+                            if (mi + long as usize + esk_v6 as usize + pset) % 2 == 1 && malg != 7 {
+                                continue;
+                            }
+                            for (cls, item, padded) in ecdh_plain_devs(&framing, esk_v6, long, &mut rng) {
+                                let Some(w) = rfc::sym::aes_kw_wrap(&kekk, &padded) else { continue };
+                                let unp = ref_unpad_rfc(&padded).filter(|_| padded.len() <= 40);
+                                let open = unp.as_ref().and_then(|u| ref_open_framing(u, esk_v6));
+                                if padded.len() > 40 && ref_unpad_rfc(&padded).is_some() {
+                                    // a correct padding to more than 40 octets: neither demanded nor forbidden
+                                    ctx.tally("near-miss.ecdh.padding-beyond-40-not-judged", 1);
+                                    continue;
+                                }
+                                cases.push((cls, item, w, true, unp, open));
+                            }
+                            let padk = if long { "pad40" } else { "pad8" };
+                            let padded = repad(&framing, long);
+                            for (nm, iv) in kw_wrong_ivs(padded.len()) {
+                                cases.push((nm.to_string(), format!("{padk}:{nm}"), kw_wrap_iv(&kekk, &padded, iv).expect("wrap"), false, None, None));
+                            }
+                            if !long {
+                                for dev in ECDH_KDF_DEVS {
+                                    let Some(kd) = ecdh_kek_dev(&k, &fp, &shared, dev, &other_fp) else { continue };
+                                    if kd == kekk {
+                                        continue;
+                                    }
+                                    cases.push((dev.to_string(), format!("{padk}:{dev}"), rfc::sym::aes_kw_wrap(&kd, &padded).expect("wrap"), false, None, None));
+                                }
+                                let good = rfc::sym::aes_kw_wrap(&kekk, &padded).expect("wrap");
+                                for (nm, pos) in [("first", 0usize), ("middle", good.len() / 2), ("last", good.len() - 1)] {
+                                    let mut b = good.clone();
+                                    b[pos] ^= 1 << rng.gen_range(0..8);
+                                    cases.push(("wrapping-octet-flipped".into(), format!("{padk}:wrapping-octet-flipped-{nm}"), b, false, None, None));
+                                }
+                            }
+                        }
+                        for (cls, item, wrapped, plain_layer, unp, open) in cases {
+                            // key wrap / KDF deviations must fail the reference unwrap, plaintext deviations must pass it
+                            let kw_ok = rfc::sym::aes_kw_unwrap(&kekk, &wrapped).is_some();
+                            if kw_ok != plain_layer {
+                                if plain_layer {
+                                    ctx.inconclusive("reference cannot unwrap its own ECDH near miss");
+                                } else {
+                                    ctx.tally("near-miss.ecdh.coincides-with-valid-wrapping", 1);
+                                }
+                                continue;
+                            }
+                            let mut fields = rfc::mpi(&eph);
+                            fields.push(wrapped.len() as u8);
+                            fields.extend(&wrapped);
+                            let rp = json!({"family": "ecdh-near-miss", "deviation": item, "curve": name, "v6": v6, "hash": h, "kek": kek, "esk_v6": esk_v6,
+                                "secret_subkey_packet": hexs(&body), "fields": hexs(&fields), "shared": hexs(&shared), "fingerprint": hexs(&fp)});
+                            cov(ctx, "ecdh-near", kek, 0, 0, 0, h, &item, &ctxname, "refuse");
+                            ctx.seen("near-miss.ecdh.classes", cls.as_str());
+                            if item == "pad8:padding-octet-foreign@0of5" && *name == "p256" && !v6 {
+                                ctx.sample(json!({"family": "ecdh-near-miss", "deviation": item, "curve": name, "kdf_hash": h, "kek": kek, "shared_secret": hexs(&shared), "fingerprint": hexs(&fp), "wrapped_session_key": hexs(&wrapped), "expected": "refused"}));
+                            }
+                            // ---- low level: unwrap + unpad
+                            let r = lib(ctx, "C12/ecdh/near-miss", &rp, || {
+                                pgp::crypto::ecdh::derive_session_key(&shared, &wrapped, wrapped.len(), lib_curve(name), HashAlgorithm::from(h), sym(kek), &fp).map(|z| z.to_vec())
+                            });
+                            if let Some(r) = r {
+                                match (&unp, r) {
+                                    (None, got) => must_refuse(
+                                        ctx,
+                                        "near-miss.ecdh-unwrap",
+                                        &item,
+                                        got.ok().map(|d| format!("the plaintext {}", hexs(&d))),
+                                        format!("C12/ecdh/derive_session_key/accepts-non-rfc-wrapping/{cls}"),
+                                        format!("derive_session_key accepted a wrapped session key that is not 'AES key wrap of the PKCS5-padded plaintext' of RFC 9580 11.5 ({item}; {name}, KDF hash {h}, KEK {kek})"),
+                                        &rp,
+                                    ),
+                                    (Some(u), Ok(d)) if *u == d => ctx.tally("near-miss.ecdh.coincides-with-valid-padding", 1),
+                                    (Some(u), other) => ctx.violation(
+                                        "C12/ecdh/derive_session_key/valid-padding-misread",
+                                        format!("{item}: the plaintext carries a correct padding and unpads to {} but the library returned {:?}", hexs(u), other.map(|d| hexs(&d)).map_err(|e| e.to_string())),
+                                        rp.clone(),
+                                    ),
+                                }
+                            }
+                            // ---- the recipient key's decrypt
+                            let Some(values) = ecdh_values_from(&fields) else { continue };
+                            let r = lib(ctx, "C12/ecdh/near-miss", &rp, || sub.decrypt(&Password::empty(), &values, typ));
+                            let Some(r) = r else { continue };
+                            let got: Result<PlainSessionKey, String> = match r {
+                                Ok(Ok(k)) => Ok(k),
+                                Ok(Err(e)) | Err(e) => Err(e.to_string()),
+                            };
+                            match (&open, got) {
+                                (None, got) => must_refuse(
+                                    ctx,
+                                    "near-miss.ecdh",
+                                    &item,
+                                    got.ok().map(|k| sk_desc(&k)),
+                                    format!("C12/ecdh/accepts-non-rfc-pkesk/{cls}"),
+                                    format!("an ECDH encrypted session key that deviates from RFC 9580 11.5 / 5.1 in one element ({item}; {name}, key v{}, PKESK v{}, KDF hash {h}, KEK {kek}) was decrypted", public.version, if esk_v6 { 6 } else { 3 }),
+                                    &rp,
+                                ),
+                                (Some((a, key)), Ok(k)) if check_plain_sk(&k, esk_v6, *a, key) => ctx.tally("near-miss.ecdh.coincides-with-valid-framing", 1),
+                                (Some((a, key)), other) => ctx.violation(
+                                    "C12/ecdh/valid-framing-misread",
+                                    format!("{item}: the plaintext is a correct framing of algorithm {a} key {} but the library returned {:?}", hexs(key), other.map(|k| sk_desc(&k))),
+                                    rp.clone(),
+                                ),
+                            }
+                        }
+                    }
+                }
+            }
+        }
+    }
+}
+
+// ---------------------------------------------------------------------------------------------
+// (8.5) X25519 / X448 (RFC 9580 5.1.6, 5.1.7): HKDF input / info / hash, KEK size, key wrap IV
+
+const X_DEVS: [&str; 21] = [
+    "kw-iv-zero",
+    "kw-iv-first-octet-a5",
+    "kw-iv-last-octet-a7",
+    "kw-iv-complement",
+    "kw-iv-rfc5649",
+    "hkdf-info-of-the-other-curve",
+    "hkdf-info-empty",
+    "hkdf-info-with-trailing-nul",
+    "hkdf-ikm-recipient-key-first",
+    "hkdf-ikm-shared-secret-first",
+    "hkdf-ikm-shared-secret-only",
+    "hkdf-ikm-without-recipient-key",
+    "hkdf-ikm-without-ephemeral-key",
+    "hkdf-hash-of-the-other-curve",
+    "hkdf-salt-is-ephemeral-key",
+    "kek-size-of-the-other-curve",
+    "kek-is-shared-secret-prefix",
+    "wrapping-octet-flipped-first",
+    "wrapping-octet-flipped-middle",
+    "wrapping-octet-flipped-last",
+    "wrapping-last-block-dropped",
+];
+
+fn hkdf_any(sha512: bool, salt: Option<&[u8]>, ikm: &[u8], info: &[u8], len: usize) -> Vec<u8> {
+    let mut out = vec![0u8; len];
+    if sha512 {
+        hkdf::Hkdf::<sha2::Sha512>::new(salt, ikm).expand(info, &mut out).expect("hkdf length");
+    } else {
+        hkdf::Hkdf::<sha2::Sha256>::new(salt, ikm).expand(info, &mut out).expect("hkdf length");
+    }
+    out
+}
+
+/// (ephemeral public key, wrapped session key) for an X25519 (25) / X448 (26) recipient with one
+/// element changed ("" = RFC 9580 5.1.6 / 5.1.7)
+fn x_wrap_dev(alg: u8, rpub: &[u8], seed: &[u8; 56], sk: &[u8], dev: &str) -> Option<(Vec<u8>, Vec<u8>)> {
+    let (eph, shared): (Vec<u8>, Vec<u8>) = if alg == 25 {
+        let s32: [u8; 32] = seed[..32].try_into().ok()?;
+        let secret = x25519_dalek::StaticSecret::from(s32);
+        let public = x25519_dalek::PublicKey::from(&secret);
+        let r32: [u8; 32] = rpub.try_into().ok()?;
+        let sh = secret.diffie_hellman(&x25519_dalek::PublicKey::from(r32));
+        (public.as_bytes().to_vec(), sh.as_bytes().to_vec())
+    } else {
+        let secret = cx448::x448::Secret::from(*seed);
+        let public = cx448::x448::PublicKey::from(&secret);
+        let r56: [u8; 56] = rpub.try_into().ok()?;
+        let rp = cx448::x448::PublicKey::from_bytes(&r56)?;
+        let sh = secret.as_diffie_hellman(&rp)?;
+        (public.as_bytes().to_vec(), sh.as_bytes().to_vec())
+    };
+    let ikm: Vec<u8> = match dev {
+        "hkdf-ikm-recipient-key-first" => [rpub, &eph[..], &shared[..]].concat(),
+        "hkdf-ikm-shared-secret-first" => [&shared[..], &eph[..], rpub].concat(),
+        "hkdf-ikm-shared-secret-only" => shared.clone(),
+        "hkdf-ikm-without-recipient-key" => [&eph[..], &shared[..]].concat(),
+        "hkdf-ikm-without-ephemeral-key" => [rpub, &shared[..]].concat(),
+        _ => [&eph[..], rpub, &shared[..]].concat(),
+    };
+    let (own, other): (&[u8], &[u8]) = if alg == 25 { (b"OpenPGP X25519", b"OpenPGP X448") } else { (b"OpenPGP X448", b"OpenPGP X25519") };
+    let info: Vec<u8> = match dev {
+        "hkdf-info-of-the-other-curve" => other.to_vec(),
+        "hkdf-info-empty" => vec![],
+        "hkdf-info-with-trailing-nul" => [own, &[0u8][..]].concat(),
+        _ => own.to_vec(),
+    };
+    let sha512 = (alg == 26) != (dev == "hkdf-hash-of-the-other-curve");
+    let klen = if (alg == 26) != (dev == "kek-size-of-the-other-curve") { 32 } else { 16 };
+    let salt = (dev == "hkdf-salt-is-ephemeral-key").then_some(&eph[..]);
+    let kek = if dev == "kek-is-shared-secret-prefix" { shared[..klen].to_vec() } else { hkdf_any(sha512, salt, &ikm, &info, klen) };
+    let mut w = match kw_wrong_ivs(sk.len()).into_iter().find(|(n, _)| *n == dev) {
+        Some((_, iv)) => kw_wrap_iv(&kek, sk, iv)?,
+        None => rfc::sym::aes_kw_wrap(&kek, sk)?,
+    };
+    let l = w.len();
+    match dev {
+        "wrapping-octet-flipped-first" => w[0] ^= 0x40,
+        "wrapping-octet-flipped-middle" => w[l / 2] ^= 0x02,
+        "wrapping-octet-flipped-last" => w[l - 1] ^= 0x01,
+        "wrapping-last-block-dropped" => w.truncate(l - 8),
+        _ => {}
+    }
+    Some((eph, w))
+}
+
+fn lib_pkesk_values(body: &[u8]) -> Result<PkeskBytes, String> {
+    let p = pgp::packet::PublicKeyEncryptedSessionKey::try_from_reader(PacketHeader::new_fixed(Tag::PublicKeyEncryptedSessionKey, body.len() as u32), body)
+        .map_err(|e| format!("parse: {e}"))?;
+    p.values().map(|v| v.clone()).map_err(|e| format!("values: {e}"))
+}
+
+fn fam_accept_x(ctx: &mut Ctx) {
+    use zoo::{Alg, Spec};
+    let specs = [
+        Spec::simple(false, Alg::Ed25519Legacy, Some(Alg::X25519)),
+        Spec::simple(true, Alg::Ed25519, Some(Alg::X25519)),
+        Spec::simple(false, Alg::Ed25519Legacy, Some(Alg::X448)),
+        Spec::simple(true, Alg::Ed25519, Some(Alg::X448)),
+    ];
+    let payload = b"C12 x25519/x448 near miss payload".to_vec();
+    for (si, spec) in specs.iter().enumerate() {
+        for esk_v6 in [false, true] {
+            if !ctx.mine() {
+                continue;
+            }
+            describe_case(&format!("x25519/x448 near misses {} esk_v6={esk_v6}", spec.name()));
+            let key = zoo::key(spec, 0);
+            let Some(sub) = key.secret_subkeys.first() else {
+                ctx.inconclusive("zoo key without subkey");
+                continue;
+            };
+            let body = sub.key.to_bytes().expect("subkey bytes");
+            let Some(rs) = RefSecret::parse(&body) else {
+                ctx.inconclusive("reference cannot parse zoo subkey");
+                continue;
+            };
+            let Some(Ok(material)) = rs.unlock(7, b"") else {
+                ctx.inconclusive("reference cannot read zoo subkey material");
+                continue;
+            };
+            let public = rs.public.clone();
+            let pkalg = public.alg;
+            let cname = if pkalg == 25 { "x25519" } else { "x448" };
+            let typ = if esk_v6 { EskType::V6 } else { EskType::V3_4 };
+            for (di, dev) in [""].iter().chain(X_DEVS.iter()).enumerate() {
+                let mut rng = ctx.rng("accept.x", ((si as u64) << 16) | ((esk_v6 as u64) << 8) | di as u64);
+                let s = AES[rng.gen_range(0..3)];
+                let a = AEADS[rng.gen_range(0..3)];
+                let sk = rbytes(&mut rng, rfc::sym::key_size(s).unwrap());
+                let mut seed = [0u8; 56];
+                rng.fill_bytes(&mut seed);
+                let Some((eph, wrapped)) = x_wrap_dev(pkalg, &public.material, &seed, &sk, dev) else {
+                    ctx.inconclusive("reference cannot build this X25519/X448 near miss");
+                    continue;
+                };
+                let fields = xfields_encode(&eph, (!esk_v6).then_some(s), &wrapped);
+                let pk = if esk_v6 {
+                    RefPkesk { version: 6, key_id: [0; 8], fp_version: public.version, fp: public.fingerprint(), alg: pkalg, fields }
+                } else {
+                    RefPkesk { version: 3, key_id: public.key_id(), fp_version: 0, fp: vec![], alg: pkalg, fields }
+                };
+                let b1 = pkesk_encode(&pk);
+                // what the reference recipient reads
+                let ref_reads = ref_pkesk_unwrap(&pk, &public, &material);
+                let b18 = if esk_v6 {
+                    let salt: [u8; 32] = rng.gen();
+                    rfc::sym::seipd_v2_encrypt(s, a, 0, &salt, &sk, &ref_literal(&payload)).expect("ref seipd2")
+                } else {
+                    let prefix = rbytes(&mut rng, 16);
+                    let mut b = vec![1u8];
+                    b.extend(rfc::sym::seipd_v1_encrypt(s, &sk, &prefix, &ref_literal(&payload)).expect("ref seipd1"));
+                    b
+                };
+                let mut bytes = frame(1, &b1, &LenForm::NewMin).unwrap();
+                bytes.extend(frame(18, &b18, &LenForm::NewMin).unwrap());
+                let rp = json!({"family": "x-near-miss", "deviation": dev, "key": spec.name(), "esk_v6": esk_v6, "pkesk_body": hexs(&b1), "message": hexs(&bytes)});
+                let pk_res = lib(ctx, "C12/x/near-miss", &rp, || {
+                    let values = lib_pkesk_values(&b1)?;
+                    match sub.key.decrypt(&Password::empty(), &values, typ) {
+                        Ok(Ok(k)) => Ok(k),
+                        Ok(Err(e)) | Err(e) => Err(format!("decrypt: {e}")),
+                    }
+                });
+                let msg_res = lib(ctx, "C12/x/near-miss", &rp, || {
+                    let pw = Password::empty();
+                    lib_read_msg(&bytes, TheRing { secret_keys: vec![&key], key_passwords: vec![&pw], ..Default::default() })
+                });
+                if dev.is_empty() {
+                    // control: the builder without deviation is a message the reference and the library read
+                    let want = if esk_v6 { sk.clone() } else { [&[s][..], &sk[..]].concat() };
+                    if ref_reads.as_deref() != Ok(&want[..]) {
+                        ctx.inconclusive("near-miss builder does not reproduce an RFC X25519/X448 PKESK");
+                        break;
+                    }
+                    cov(ctx, &format!("{cname}-near"), s, 0, 0, 0, 0, "control", if esk_v6 { "esk6" } else { "esk3" }, "accept");
+                    match pk_res {
+                        Some(Ok(k)) if check_plain_sk(&k, esk_v6, s, &sk) => {}
+                        Some(other) => ctx.violation(format!("C12/{cname}-msg/ref-to-lib/rejected/pkesk-level"), format!("{}: {:?}", spec.name(), other.map(|k| sk_desc(&k))), rp.clone()),
+                        None => {}
+                    }
+                    match msg_res {
+                        Some(Ok(d)) if d == payload => {}
+                        Some(other) => ctx.violation(format!("C12/{cname}-msg/ref-to-lib/rejected/control"), format!("{}: {:?}", spec.name(), other.map(|d| d.len())), rp.clone()),
+                        None => {}
+                    }
+                    continue;
+                }
+                if ref_reads.is_ok() {
+                    ctx.tally("near-miss.x.coincides-with-valid", 1);
+                    continue;
+                }
+                cov(ctx, &format!("{cname}-near"), s, 0, 0, 0, 0, dev, if esk_v6 { "esk6" } else { "esk3" }, "refuse");
+                if let Some(r) = pk_res {
+                    must_refuse(
+                        ctx,
+                        &format!("near-miss.{cname}"),
+                        dev,
+                        r.ok().map(|k| sk_desc(&k)),
+                        format!("C12/{cname}/accepts-non-rfc-pkesk/{dev}"),
+                        format!("a PKESK v{} for {} whose key wrap deviates from RFC 9580 5.1.{} in one element ({dev}) was decrypted", if esk_v6 { 6 } else { 3 }, spec.name(), if pkalg == 25 { 6 } else { 7 }),
+                        &rp,
+                    );
+                }
+                if let Some(r) = msg_res {
+                    must_refuse(
+                        ctx,
+                        &format!("near-miss.{cname}-message"),
+                        dev,
+                        r.ok().map(|d| format!("{} octets of plaintext", d.len())),
+                        format!("C12/{cname}/accepts-non-rfc-pkesk/{dev}"),
+                        format!("a message whose PKESK v{} for {} deviates from RFC 9580 5.1.{} in one element ({dev}) was decrypted", if esk_v6 { 6 } else { 3 }, spec.name(), if pkalg == 25 { 6 } else { 7 }),
+                        &rp,
+                    );
+                }
+            }
+        }
+    }
+}
+
+// ---------------------------------------------------------------------------------------------
+// (8.6) SEIPDv2 (RFC 9580 5.13.2): key / IV derivation, per-chunk nonce and associated data, the
+// final tag's nonce and associated data, chunking — one element wrong
+
+const SEIPD2_DEVS: [&str; 32] = [
+    "final-ad-without-octet-count",
+    "final-ad-count-32-bit",
+    "final-ad-count-little-endian",
+    "final-ad-count-of-ciphertext-octets",
+    "final-ad-count-plus-1",
+    "final-ad-count-of-chunks",
+    "final-ad-count-only",
+    "final-nonce-index-of-last-chunk",
+    "final-nonce-index-plus-1",
+    "final-nonce-index-zero",
+    "final-tag-missing",
+    "final-tag-is-last-chunk-tag-again",
+    "final-tag-over-nonempty-plaintext",
+    "chunk-index-from-1",
+    "chunk-index-little-endian",
+    "chunk-index-always-0",
+    "chunk-index-32-bit-left-aligned",
+    "chunks-swapped",
+    "chunk-ad-with-chunk-index",
+    "chunk-ad-empty",
+    "chunk-ad-tag-octet-d4",
+    "chunk-ad-plain-tag-octet",
+    "chunk-ad-version-1",
+    "chunk-ad-without-chunk-size-octet",
+    "hkdf-info-empty",
+    "hkdf-info-without-chunk-size-octet",
+    "hkdf-salt-unused",
+    "hkdf-salt-as-info",
+    "hkdf-iv-before-key",
+    "hkdf-sha512",
+    "session-key-used-directly",
+    "first-chunk-one-octet-short",
+];
+
+/// SEIPDv2 packet body with one element of RFC 9580 5.13.2 changed ("" = the RFC's construction).
+/// None: the deviation does not apply to this input (e.g. needs two chunks).
+fn seipd_v2_dev(s: u8, a: u8, co: u8, salt: &[u8; 32], sk: &[u8], data: &[u8], dev: &str) -> Option<Vec<u8>> {
+    let ks = rfc::sym::key_size(s)?;
+    let ns = rfc::sym::aead_nonce_len(a)?;
+    let info = [0xD2u8, 2, s, a, co];
+    let cs = 1usize << (co as usize + 6);
+    let need = ks + ns - 8;
+    let okm: Vec<u8> = match dev {
+        "hkdf-info-empty" => rfc::sym::hkdf_sha256(Some(salt), sk, &[], need),
+        "hkdf-info-without-chunk-size-octet" => rfc::sym::hkdf_sha256(Some(salt), sk, &info[..4], need),
+        "hkdf-salt-unused" => rfc::sym::hkdf_sha256(None, sk, &info, need),
+        "hkdf-salt-as-info" => rfc::sym::hkdf_sha256(None, sk, &[&info[..], &salt[..]].concat(), need),
+        "hkdf-sha512" => hkdf_any(true, Some(salt), sk, &info, need),
+        "session-key-used-directly" => [sk, &salt[..ns - 8]].concat(),
+        _ => rfc::sym::hkdf_sha256(Some(salt), sk, &info, need),
+    };
+    let (key, iv) = if dev == "hkdf-iv-before-key" { (okm[ns - 8..].to_vec(), okm[..ns - 8].to_vec()) } else { (okm[..ks].to_vec(), okm[ks..].to_vec()) };
+    let mut pieces: Vec<&[u8]> = data.chunks(cs).collect();
+    if dev == "first-chunk-one-octet-short" {
+        if data.len() <= cs {
+            return None;
+        }
+        pieces = vec![&data[..cs - 1]];
+        pieces.extend(data[cs - 1..].chunks(cs));
+    }
+    let nonce_for = |idx: u64, final_: bool| -> Vec<u8> {
+        let mut n = iv.clone();
+        let i8: [u8; 8] = match dev {
+            "chunk-index-from-1" if !final_ => (idx + 1).to_be_bytes(),
+            "chunk-index-little-endian" => idx.to_le_bytes(),
+            "chunk-index-always-0" if !final_ => [0; 8],
+            "chunk-index-32-bit-left-aligned" => {
+                let mut b = [0u8; 8];
+                b[..4].copy_from_slice(&(idx as u32).to_be_bytes());
+                b
+            }
+            _ => idx.to_be_bytes(),
+        };
+        n.extend(i8);
+        n
+    };
+    let mut sealed: Vec<Vec<u8>> = vec![];
+    for (idx, c) in pieces.iter().enumerate() {
+        let ad: Vec<u8> = match dev {
+            "chunk-ad-with-chunk-index" => [&info[..], &(idx as u64).to_be_bytes()].concat(),
+            "chunk-ad-empty" => vec![],
+            "chunk-ad-tag-octet-d4" => vec![0xD4, 2, s, a, co],
+            "chunk-ad-plain-tag-octet" => vec![18, 2, s, a, co],
+            "chunk-ad-version-1" => vec![0xD2, 1, s, a, co],
+            "chunk-ad-without-chunk-size-octet" => info[..4].to_vec(),
+            _ => info.to_vec(),
+        };
+        sealed.push(rfc::sym::aead_seal(s, a, &key, &nonce_for(idx as u64, false), &ad, c)?);
+    }
+    let nchunks = sealed.len() as u64;
+    // (a deviation that cannot show with this number of chunks reproduces the RFC's body: the caller
+    // notices that the reference accepts it and does not count it)
+    if dev == "chunks-swapped" {
+        if sealed.len() < 2 || sealed[0].len() != sealed[1].len() {
+            return None;
+        }
+        sealed.swap(0, 1);
+    }
+    let total = data.len() as u64;
+    let ct_total: u64 = sealed.iter().map(|c| c.len() as u64).sum();
+    let fad: Vec<u8> = match dev {
+        "final-ad-without-octet-count" => info.to_vec(),
+        "final-ad-count-32-bit" => [&info[..], &(total as u32).to_be_bytes()].concat(),
+        "final-ad-count-little-endian" => [&info[..], &total.to_le_bytes()].concat(),
+        "final-ad-count-of-ciphertext-octets" => [&info[..], &ct_total.to_be_bytes()].concat(),
+        "final-ad-count-plus-1" => [&info[..], &(total + 1).to_be_bytes()].concat(),
+        "final-ad-count-of-chunks" => [&info[..], &nchunks.to_be_bytes()].concat(),
+        "final-ad-count-only" => total.to_be_bytes().to_vec(),
+        _ => [&info[..], &total.to_be_bytes()].concat(),
+    };
+    let fidx = match dev {
+        "final-nonce-index-of-last-chunk" => nchunks.checked_sub(1)?,
+        "final-nonce-index-plus-1" => nchunks + 1,
+        "final-nonce-index-zero" => 0,
+        _ => nchunks,
+    };
+    let ftag: Vec<u8> = match dev {
+        "final-tag-missing" => vec![],
+        "final-tag-is-last-chunk-tag-again" => {
+            let l = sealed.last()?;
+            l[l.len() - 16..].to_vec()
+        }
+        "final-tag-over-nonempty-plaintext" => {
+            let t = rfc::sym::aead_seal(s, a, &key, &nonce_for(fidx, true), &fad, &[0u8])?;
+            t[1..].to_vec()
+        }
+        _ => rfc::sym::aead_seal(s, a, &key, &nonce_for(fidx, true), &fad, &[])?,
+    };
+    let mut out = vec![2u8, s, a, co];
+    out.extend_from_slice(salt);
+    for c in sealed {
+        out.extend(c);
+    }
+    out.extend(ftag);
+    Some(out)
+}
+
+fn fam_accept_seipd2(ctx: &mut Ctx) {
+    let chunks: Vec<u8> = if ctx.quick() { vec![0, 1, 4] } else { vec![0, 1, 2, 4, 6, 8] };
+    for &s in &AES {
+        for &a in &AEADS {
+            for &co in &chunks {
+                if !ctx.mine() {
+                    continue;
+                }
+                describe_case(&format!("seipd2 near misses sym {s} aead {a} chunk {co}"));
+                let cs = 1usize << (co as usize + 6);
+                let ks = rfc::sym::key_size(s).unwrap();
+                // lengths of the literal packet inside: empty stream is not a message, so the raw API gets
+                // the 0-chunk case and the message API starts at one short chunk
+                for (li, &n) in [0usize, 9, cs, cs + 1, 2 * cs, 3 * cs + 5].iter().enumerate() {
+                    let mut rng = ctx.rng("accept.seipd2", ((s as u64) << 40) | ((a as u64) << 32) | ((co as u64) << 24) | li as u64);
+                    let key = rbytes(&mut rng, ks);
+                    let salt: [u8; 32] = rng.gen();
+                    // raw plaintext for the packet API; a literal packet of exactly n octets for the message API
+                    let raw = rbytes(&mut rng, n);
+                    let lit = payload_for_inner(n).map(|pl| { let p = rbytes(&mut rng, pl); (ref_literal(&p), p) });
+                    if seipd_v2_dev(s, a, co, &salt, &key, &raw, "") != rfc::sym::seipd_v2_encrypt(s, a, co, &salt, &key, &raw) {
+                        ctx.inconclusive("near-miss builder does not reproduce the reference SEIPDv2 body");
+                        continue;
+                    }
+                    let lc = len_class(n, cs);
+                    for dev in SEIPD2_DEVS {
+                        // ---- packet API
+                        if let Some(body) = seipd_v2_dev(s, a, co, &salt, &key, &raw, dev) {
+                            if rfc::sym::seipd_v2_decrypt(&body, &key).is_ok() {
+                                ctx.tally("near-miss.seipd2.coincides-with-valid", 1);
+                            } else {
+                                let rp = json!({"family": "seipd2-near-miss", "deviation": dev, "sym": s, "aead": a, "chunk": co, "len": n, "key": hexs(&key), "body": hexs(&body[..body.len().min(2048)])});
+                                cov(ctx, "seipd2-near-raw", s, a, co, 0, 0, dev, &lc, "refuse");
+                                let r = lib(ctx, "C12/seipd2/near-miss", &rp, || {
+                                    SymEncryptedProtectedData::try_from_reader(PacketHeader::new_fixed(Tag::SymEncryptedProtectedData, body.len() as u32), &body[..])
+                                        .and_then(|p| p.decrypt(&key, None, Seipdv1ReadMode::default()))
+                                });
+                                if let Some(r) = r {
+                                    must_refuse(
+                                        ctx,
+                                        "near-miss.seipd2-raw",
+                                        dev,
+                                        r.ok().map(|d| format!("{} octets of plaintext", d.len())),
+                                        format!("C12/seipd2/raw/accepts-non-rfc-stream/{dev}"),
+                                        format!("SymEncryptedProtectedData::decrypt read to a clean end a SEIPDv2 body that deviates from RFC 9580 5.13.2 in one element ({dev}; sym {s}, aead {a}, chunk octet {co}, {n} plaintext octets)"),
+                                        &rp,
+                                    );
+                                }
+                            }
+                        }
+                        // ---- message API
+                        let Some((inner, payload)) = &lit else { continue };
+                        let Some(body) = seipd_v2_dev(s, a, co, &salt, &key, inner, dev) else { continue };
+                        if rfc::sym::seipd_v2_decrypt(&body, &key).is_ok() {
+                            continue;
+                        }
+                        let form = outer_form(li + co as usize + a as usize, body.len(), 18);
+                        let bytes = frame(18, &body, &form).expect("frame");
+                        let rp = json!({"family": "seipd2-near-miss-msg", "deviation": dev, "sym": s, "aead": a, "chunk": co, "payload_len": payload.len(), "key": hexs(&key), "message": hexs(&bytes[..bytes.len().min(2048)])});
+                        cov(ctx, "seipd2-near-msg", s, a, co, 0, 0, dev, &lc, "refuse");
+                        let r = lib(ctx, "C12/seipd2/near-miss", &rp, || {
+                            let sk = PlainSessionKey::V6 { key: RawSessionKey::from(key.clone()) };
+                            lib_read_msg(&bytes, ring_sk(sk, DecryptionOptions::new()))
+                        });
+                        if let Some(r) = r {
+                            must_refuse(
+                                ctx,
+                                "near-miss.seipd2-message",
+                                dev,
+                                r.ok().map(|d| format!("{} octets of plaintext ({})", d.len(), if d == *payload { "the payload" } else { "not the payload" })),
+                                format!("C12/seipd2/accepts-non-rfc-stream/{dev}"),
+                                format!("a SEIPDv2 message that deviates from RFC 9580 5.13.2 in one element ({dev}; sym {s}, aead {a}, chunk octet {co}, framing {}) was read to a clean end", form_name(&form)),
+                                &rp,
+                            );
+                        }
+                    }
+                }
+            }
+        }
+    }
+}
+
+// ---------------------------------------------------------------------------------------------
+// (8.7) secret key protection: usage 253 (AEAD) key derivation / associated data, usage 254 SHA-1
+// check, usage 255 checksum — one element wrong; Argon2 specifiers outside the range
+
+const KEYPROT_AEAD_DEVS: [&str; 16] = [
+    "ad-without-packet-type-octet",
+    "ad-without-public-key",
+    "ad-other-packet-type",
+    "ad-old-format-packet-type-octet",
+    "ad-plain-tag-octet",
+    "ad-empty",
+    "ad-with-s2k-fields",
+    "hkdf-info-other-packet-type",
+    "hkdf-info-other-key-version",
+    "hkdf-info-empty",
+    "hkdf-info-without-aead-octet",
+    "hkdf-info-old-format-packet-type-octet",
+    "kek-is-s2k-output",
+    "hkdf-sha512",
+    "tag-last-octet-flipped",
+    "tag-missing",
+];
+
+const KEYPROT_CFB_DEVS: [&str; 7] = [
+    "sha1-over-ciphertext",
+    "sha1-last-octet-flipped",
+    "sha1-missing",
+    "sha1-of-material-and-public-key",
+    "sum16-instead-of-sha1",
+    "sha256-truncated-instead-of-sha1",
+    "sha1-in-front",
+];
+
+const KEYPROT_MCFB_DEVS: [&str; 4] = ["checksum-plus-1", "checksum-octets-swapped", "checksum-missing", "sha1-instead-of-checksum"];
+
+/// Locks `material` with one element of RFC 9580 3.7.2.1 / 5.5.3 changed; `key` is the S2K output.
+fn keyprot_dev(public: &RefPub, tag: u8, prot: &RefProtection, key: &[u8], material: &[u8], dev: &str) -> Option<Vec<u8>> {
+    let data: Vec<u8> = match prot {
+        RefProtection::Aead { cipher, aead: a, s2k, nonce } => {
+            let ks = rfc::sym::key_size(*cipher)?;
+            let ty = 0xC0 | tag;
+            let other_ty = 0xC0 | (if tag == 5 { 7 } else { 5 });
+            let old_ty = 0x80 | (tag << 2) | 1;
+            let info: Vec<u8> = match dev {
+                "hkdf-info-other-packet-type" => vec![other_ty, public.version, *cipher, *a],
+                "hkdf-info-other-key-version" => vec![ty, if public.version == 6 { 4 } else { 6 }, *cipher, *a],
+                "hkdf-info-empty" => vec![],
+                "hkdf-info-without-aead-octet" => vec![ty, public.version, *cipher],
+                "hkdf-info-old-format-packet-type-octet" => vec![old_ty, public.version, *cipher, *a],
+                _ => vec![ty, public.version, *cipher, *a],
+            };
+            let kek = match dev {
+                "kek-is-s2k-output" => key[..ks].to_vec(),
+                "hkdf-sha512" => hkdf_any(true, None, key, &info, ks),
+                _ => rfc::sym::hkdf_sha256(None, key, &info, ks),
+            };
+            let pk = public.encode();
+            let ad: Vec<u8> = match dev {
+                "ad-without-packet-type-octet" => pk,
+                "ad-without-public-key" => vec![ty],
+                "ad-other-packet-type" => [&[other_ty][..], &pk].concat(),
+                "ad-old-format-packet-type-octet" => [&[old_ty][..], &pk].concat(),
+                "ad-plain-tag-octet" => [&[tag][..], &pk].concat(),
+                "ad-empty" => vec![],
+                "ad-with-s2k-fields" => [&[ty][..], &pk, &[253, *cipher, *a][..], &s2k.encode()].concat(),
+                _ => [&[ty][..], &pk].concat(),
+            };
+            let mut ct = rfc::sym::aead_seal(*cipher, *a, &kek, nonce, &ad, material)?;
+            match dev {
+                "tag-last-octet-flipped" => *ct.last_mut()? ^= 0x01,
+                "tag-missing" => ct.truncate(material.len()),
+                _ => {}
+            }
+            ct
+        }
+        RefProtection::Cfb { cipher, iv, .. } => {
+            let mut d = material.to_vec();
+            let sha = rfc::hash(2, &[material])?;
+            match dev {
+                "sha1-over-ciphertext" => {
+                    let mut c = material.to_vec();
+                    rfc::sym::cfb_encrypt(*cipher, key, iv, &mut c)?;
+                    d.extend(rfc::hash(2, &[&c])?);
+                }
+                "sha1-last-octet-flipped" => {
+                    d.extend(&sha);
+                    *d.last_mut()? ^= 0x01;
+                }
+                "sha1-missing" => {}
+                "sha1-of-material-and-public-key" => d.extend(rfc::hash(2, &[&public.encode(), material])?),
+                "sum16-instead-of-sha1" => d.extend(rfc::sum16(material).to_be_bytes()),
+                "sha256-truncated-instead-of-sha1" => d.extend(&rfc::hash(8, &[material])?[..20]),
+                "sha1-in-front" => {
+                    d = sha.clone();
+                    d.extend_from_slice(material);
+                }
+                _ => d.extend(&sha),
+            }
+            rfc::sym::cfb_encrypt(*cipher, key, iv, &mut d)?;
+            d
+        }
+        RefProtection::MalleableCfb { cipher, iv, .. } => {
+            let mut d = material.to_vec();
+            let ck = rfc::sum16(material);
+            match dev {
+                "checksum-plus-1" => d.extend(ck.wrapping_add(1).to_be_bytes()),
+                "checksum-octets-swapped" => d.extend(ck.swap_bytes().to_be_bytes()),
+                "checksum-missing" => {}
+                "sha1-instead-of-checksum" => d.extend(rfc::hash(2, &[material])?),
+                _ => d.extend(ck.to_be_bytes()),
+            }
+            rfc::sym::cfb_encrypt(*cipher, key, iv, &mut d)?;
+            d
+        }
+        _ => return None,
+    };
+    Some(RefSecret { public: public.clone(), protection: prot.clone(), data }.encode())
+}
+
+fn keyprot_near<P: SecPkt>(ctx: &mut Ctx, pkt: &P, keyname: &str, seed: u64) {
+    let tag = P::TAG;
+    let Ok(plain) = pkt.to_bytes() else {
+        ctx.inconclusive("cannot serialise zoo key");
+        return;
+    };
+    let Some(rs) = RefSecret::parse(&plain) else {
+        ctx.inconclusive(format!("reference cannot parse unprotected secret key packet of {keyname}"));
+        return;
+    };
+    let Some(Ok(material)) = rs.unlock(tag, b"") else {
+        ctx.inconclusive("reference cannot read zoo key material");
+        return;
+    };
+    let v6 = rs.public.version == 6;
+    let vname = if v6 { "v6" } else { "v4" };
+    let mut rng = ctx.rng("accept.keyprot", seed);
+    // dev: what the builder changes; item: name in the coverage set; ref_reads_it: the reference's unlock is no
+    // judge here (the deviation is a rule about the fields, not about the protected octets)
+    let try_one = |ctx: &mut Ctx, prot: RefProtection, key: Vec<u8>, pw: Vec<u8>, dev: &str, item: &str, ref_reads_it: bool, set: &str, sig: String, what: String| {
+        let (pname, c, a, kind, h) = prot_desc(&prot);
+        let Some(locked) = keyprot_dev(&rs.public, tag, &prot, &key, &material, dev) else {
+            ctx.inconclusive("reference cannot build this key protection near miss");
+            return;
+        };
+        // the reference must refuse it (or not know how to read it)
+        let ref_s2k_usable = !matches!(&prot, RefProtection::Aead { s2k: RefS2k::Argon2 { m, .. }, .. } | RefProtection::Cfb { s2k: RefS2k::Argon2 { m, .. }, .. } if *m > 31);
+        if let Some(Some(Ok(m))) = RefSecret::parse(&locked).filter(|_| ref_s2k_usable).map(|l| l.unlock(tag, &pw)) {
+            if m == material && !ref_reads_it {
+                ctx.tally("near-miss.keyprot.coincides-with-valid", 1);
+                return;
+            }
+        }
+        let rp = json!({"family": "keyprot-near-miss", "deviation": item, "key": keyname, "tag": tag, "protection": format!("{prot:?}"), "pw": hexs(&pw), "locked_packet": hexs(&locked)});
+        cov(ctx, &format!("keyprot-{pname}-near"), c, a, 0, kind, h, item, &format!("{vname}-tag{tag}"), "refuse");
+        let pwd = Password::from(&pw[..]);
+        let r = lib(ctx, "C12/keyprot/near-miss", &rp, || {
+            let mut p = P::parse(&locked).map_err(|e| format!("parse: {e}"))?;
+            p.unlock_inplace(&pwd).map_err(|e| format!("unlock: {e}"))?;
+            p.to_bytes().map_err(|e| format!("serialise: {e}"))
+        });
+        if let Some(r) = r {
+            must_refuse(ctx, set, item, r.ok().map(|b| format!("an unlocked packet of {} octets ({})", b.len(), if b == plain { "the original material" } else { "other material" })), sig, what, &rp);
+        }
+    };
+    // ---- usage 253
+    for (di, dev) in KEYPROT_AEAD_DEVS.iter().enumerate() {
+        let c = AES[(di + seed as usize) % 3];
+        let a = AEADS[(di / 3 + seed as usize) % 3];
+        let h = STRONG_HASHES[rng.gen_range(0..STRONG_HASHES.len())];
+        let s2k = mk_s2k(&mut rng, [1usize, 2][di % 2], h);
+        let pw = { let n = rng.gen_range(1..24); rbytes(&mut rng, n) };
+        let Some(key) = s2k.derive(&pw, rfc::sym::key_size(c).unwrap()) else { continue };
+        let prot = RefProtection::Aead { cipher: c, aead: a, s2k, nonce: rbytes(&mut rng, rfc::sym::aead_nonce_len(a).unwrap()) };
+        if di == 0 {
+            // control: the builder without deviation is the reference's own locked packet
+            if keyprot_dev(&rs.public, tag, &prot, &key, &material, "") != RefSecret::lock(&rs.public, tag, prot.clone(), &pw, &material).map(|l| l.encode()) {
+                ctx.inconclusive("near-miss builder does not reproduce the reference AEAD key protection");
+                return;
+            }
+        }
+        try_one(
+            ctx,
+            prot,
+            key,
+            pw,
+            dev,
+            dev,
+            false,
+            "near-miss.keyprot-aead",
+            format!("C12/keyprot/aead/accepts-non-rfc-protection/{dev}"),
+            format!("{keyname} tag {tag}: a usage-253 protected key that deviates from RFC 9580 3.7.2.1 in one element ({dev}) was unlocked"),
+        );
+    }
+    // ---- usage 254
+    for (di, dev) in KEYPROT_CFB_DEVS.iter().enumerate() {
+        let c = rfc::sym::ALL_CIPHERS[(di * 3 + seed as usize) % 11];
+        let h = STRONG_HASHES[rng.gen_range(0..STRONG_HASHES.len())];
+        let s2k = mk_s2k(&mut rng, di % 2, h);
+        let pw = { let n = rng.gen_range(1..24); rbytes(&mut rng, n) };
+        let Some(key) = s2k.derive(&pw, rfc::sym::key_size(c).unwrap()) else { continue };
+        let prot = RefProtection::Cfb { cipher: c, s2k, iv: rbytes(&mut rng, rfc::sym::block_size(c).unwrap()) };
+        if di == 0 && keyprot_dev(&rs.public, tag, &prot, &key, &material, "") != RefSecret::lock(&rs.public, tag, prot.clone(), &pw, &material).map(|l| l.encode()) {
+            ctx.inconclusive("near-miss builder does not reproduce the reference CFB key protection");
+            return;
+        }
+        try_one(
+            ctx,
+            prot,
+            key,
+            pw,
+            dev,
+            dev,
+            false,
+            "near-miss.keyprot-cfb",
+            format!("C12/keyprot/cfb/accepts-non-rfc-protection/{dev}"),
+            format!("{keyname} tag {tag}: a usage-254 protected key whose integrity part deviates from RFC 9580 3.7.2.1 ({dev}) was unlocked"),
+        );
+    }
+    // ---- usage 255 (v4 only)
+    if !v6 {
+        for (di, dev) in KEYPROT_MCFB_DEVS.iter().enumerate() {
+            let c = rfc::sym::ALL_CIPHERS[(di * 5 + seed as usize) % 11];
+            let h = HASHES[rng.gen_range(0..HASHES.len())];
+            let s2k = mk_s2k(&mut rng, [0usize, 1, 3][di % 3], h);
+            let pw = { let n = rng.gen_range(1..24); rbytes(&mut rng, n) };
+            let Some(key) = s2k.derive(&pw, rfc::sym::key_size(c).unwrap()) else { continue };
+            let prot = RefProtection::MalleableCfb { cipher: c, s2k, iv: rbytes(&mut rng, rfc::sym::block_size(c).unwrap()) };
+            try_one(
+                ctx,
+                prot,
+                key,
+                pw,
+                dev,
+                dev,
+                false,
+                "near-miss.keyprot-mcfb",
+                format!("C12/keyprot/mcfb/accepts-non-rfc-protection/{dev}"),
+                format!("{keyname} tag {tag}: a usage-255 protected key whose checksum deviates from RFC 9580 3.7.2.1 ({dev}) was unlocked"),
+            );
+        }
+    }
+    // ---- a (legal) Argon2 specifier with a usage other than 253: RFC 9580 3.7.2.1 "MUST reject as malformed"
+    for usage in [254u8, 255] {
+        if usage == 255 && v6 {
+            continue;
+        }
+        let s2k = mk_s2k(&mut rng, 2, 8);
+        let pw = { let n = rng.gen_range(1..24); rbytes(&mut rng, n) };
+        let c = AES[(seed as usize + usage as usize) % 3];
+        let Some(key) = s2k.derive(&pw, rfc::sym::key_size(c).unwrap()) else { continue };
+        let iv = rbytes(&mut rng, 16);
+        let (prot, set, pn) = if usage == 254 {
+            (RefProtection::Cfb { cipher: c, s2k, iv }, "near-miss.keyprot-cfb", "cfb")
+        } else {
+            (RefProtection::MalleableCfb { cipher: c, s2k, iv }, "near-miss.keyprot-mcfb", "mcfb")
+        };
+        try_one(
+            ctx,
+            prot,
+            key,
+            pw,
+            "",
+            "argon2-specifier-without-aead",
+            true,
+            set,
+            format!("C12/keyprot/{pn}/accepts-non-rfc-protection/argon2-specifier-without-aead"),
+            format!("{keyname} tag {tag}: a usage-{usage} protected key with an Argon2 specifier (RFC 9580 3.7.2.1: only with usage 253, MUST reject) was unlocked"),
+        );
+    }
+    // ---- Argon2 specifiers outside the range: protected by a sender that raises the parameters to what
+    // Argon2 can work with (usage 253 and 254); the library must neither unlock nor write such packets
+    let grid = argon2_illegal_grid();
+    for k in 0..6usize {
+        let (t, p, m) = grid[(seed as usize * 7 + k * 11) % grid.len()];
+        if p > 16 {
+            continue;
+        }
+        let cls = argon2_class(t, p, m);
+        let salt: [u8; 16] = rng.gen();
+        let s2k = RefS2k::Argon2 { salt, t, p, m };
+        let pw = { let n = rng.gen_range(1..24); rbytes(&mut rng, n) };
+        let c = AES[k % 3];
+        let a = AEADS[(k / 3 + seed as usize) % 3];
+        let Some(key) = argon2_sloppy(&salt, t, p, m, &pw, rfc::sym::key_size(c).unwrap()) else { continue };
+        let prot = RefProtection::Aead { cipher: c, aead: a, s2k: s2k.clone(), nonce: rbytes(&mut rng, rfc::sym::aead_nonce_len(a).unwrap()) };
+        let pname = prot_desc(&prot).0;
+        try_one(
+            ctx,
+            prot.clone(),
+            key,
+            pw.clone(),
+            "",
+            &format!("unlock/{pname}/argon2-{cls}"),
+            false,
+            "near-miss.keyprot-s2k-range",
+            format!("C12/keyprot/{pname}/accepts-s2k-outside-rfc-range/argon2-{cls}"),
+            format!("{keyname} tag {tag}: a protected key whose Argon2 specifier is outside RFC 9580 3.7.1.4 (t={t}, p={p}, encoded m={m}) was unlocked"),
+        );
+        // emitting side
+        let rp = json!({"family": "keyprot-emit-s2k-outside-range", "key": keyname, "tag": tag, "protection": format!("{prot:?}"), "pw": hexs(&pw)});
+        let pwd = Password::from(&pw[..]);
+        let mut p2 = pkt.clone();
+        if let Some(r) = lib(ctx, "C12/keyprot/near-miss", &rp, || p2.lock(&pwd, lib_prot(&prot)).and_then(|_| p2.to_bytes())) {
+            must_refuse(
+                ctx,
+                "near-miss.keyprot-s2k-range",
+                &format!("lock/{pname}/argon2-{cls}"),
+                r.ok().map(|b| format!("a locked packet of {} octets", b.len())),
+                format!("C12/keyprot/{pname}/emits-s2k-outside-rfc-range/argon2-{cls}"),
+                format!("{keyname} tag {tag}: the library locked a key with an Argon2 specifier outside RFC 9580 3.7.1.4 (t={t}, p={p}, encoded m={m}): no key is defined for it"),
+                &rp,
+            );
+        }
+    }
+}
+
+fn fam_accept_keyprot(ctx: &mut Ctx) {
+    use zoo::{Alg, Spec};
+    let specs = [
+        Spec::simple(false, Alg::Ed25519Legacy, Some(Alg::EcdhCv25519)),
+        Spec::simple(true, Alg::Ed25519, Some(Alg::X25519)),
+        Spec::simple(false, Alg::EcdsaP256, Some(Alg::EcdhP256)),
+        Spec::simple(true, Alg::Ed448, Some(Alg::X448)),
+    ];
+    for (si, spec) in specs.iter().enumerate() {
+        for part in 0..2u64 {
+            if !ctx.mine() {
+                continue;
+            }
+            describe_case(&format!("keyprot near misses {} part {part}", spec.name()));
+            let key = zoo::key(spec, 0);
+            let seed = (si as u64) << 8 | part;
+            if part == 0 {
+                keyprot_near(ctx, &key.primary_key, &spec.name(), seed);
+            } else if let Some(sub) = key.secret_subkeys.first() {
+                keyprot_near(ctx, &sub.key, &spec.name(), seed);
             }
         }
     }
